@@ -12,106 +12,293 @@ Definition show_fres (r : fres) : string :=
   end.
 Definition check (rs : list rune) : string := digest (show_fres (format_res rs)).
 Definition full (rs : list rune) : string := show_fres (format_res rs).
-Eval vm_compute in ("<<<M95>>>" ++ check (runes_of_ascii "MetaData chars {} packet lengthOf
-{ @lengthOf(_x )uint16 /// triple
-Z9_`" ++ [28040; 24687; 31867; 22411]%N ++ runes_of_ascii "`, repeat BodyLength{ repeat
-    u8x zchar  , } ,a1	,
-    // " ++ [27880; 37322]%N ++ runes_of_ascii "
-    T @calculatedFrom( ""\" ++ [233]%N ++ runes_of_ascii """)
-, match //	t
-calculatedFrom
-    as string_
-    // " ++ [27880; 37322]%N ++ runes_of_ascii "
-    { """ ++ [233]%N ++ runes_of_ascii "t" ++ [233]%N ++ runes_of_ascii """
-    :// `tick` ""quote"" 'q'
-_x // " ++ [128512]%N ++ runes_of_ascii " emoji
-, ""a	b""
-    : zchar [ ""x y"",
-    10
-    ,	""abc""
-,
-""packet""
-, // c
-""{,}"" //
-,00] :  u128 ,""abc"":x_y_z
-    ,  """ ++ [233]%N ++ runes_of_ascii "t" ++ [233]%N ++ runes_of_ascii """
-    : // packet A { u8 x, }
-packetx
-} // a // b
-, zchar[
-    1 ]// " ++ [128512]%N ++ runes_of_ascii " emoji
-A
-    // " ++ [27880; 37322]%N ++ runes_of_ascii "
-    @lengthOf( float
-    // `tick` ""quote"" 'q'
-    ) `say ""hi""`
-    // trailing space 
-    , repeat f32 asx
-// " ++ [27880; 37322]%N ++ runes_of_ascii "
-// " ++ [128512]%N ++ runes_of_ascii " emoji
-,
-    // " ++ [128512]%N ++ runes_of_ascii " emoji
-    @rightPad
-    ( ' ' // a // b
-)	char[] msg_type `say ""hi""`,
-} packet Pad
-// " ++ [27880; 37322]%N ++ runes_of_ascii "
-// " ++ [27880; 37322]%N ++ runes_of_ascii "
-{ As @lengthOf( rootA )
-`say ""hi""` , repeat
-    _x // trailing space 
-{
-    Logon
-Foo, // `tick` ""quote"" 'q'
-falsey
-MetaDataX ,
-    }  ,msg_type
-    // trailing space 
-    roots `line1
-line2`,pack pack , chars	`crlf
-line` ,@lengthOf(lengthOf) match lengthOf
-    as o { 3
-    : falsey
-    , } ,}packet // trailing space 
-o {// packet A { u8 x, }
-i64_`{ , }` ,
-match MetaDataX as Foo { """ ++ [233]%N ++ runes_of_ascii "t" ++ [233]%N ++ runes_of_ascii """ :
-    leftPad ,
-[	00 ] : f32a
-[ ""`tick`"",
-    0123456789
-]
-: float ,
-""it's"" : pack
-, ""`tick`"" :
-charz } ,
-options1
-    leftPad ,// packet A { u8 x, }
-string body //
-, @calculatedFrom(
-""{,}""  )As
+Eval vm_compute in ("<<<M3605>>>" ++ check (runes_of_ascii "packet o {
+    match crc as roots {
+        4294967296 : o,
+    },
+    u128 @lengthOf(u8x),
+    repeat Header `say ""hi""`,
+    @rightPad(' ')
+    repeat string charz,
+    string BodyLength @calculatedFrom(""it's""),
+    @leftPad('\x00')
+    @tag(4294967296)
+    repeat a1 {
+        // " ++ [128512]%N ++ runes_of_ascii " emoji
+        charz `// not a comment`,
+        _x o,
+        metadata,
+        uint8 MetaDataX,
+    },
+    repeat u128 `two words`,
+    @lengthOf(metadata)
+    char[0123456789] _x,
+    repeat Z9_ ``,//	t
+}
+
+packet packetx {
     //	t
-    , // " ++ [128512]%N ++ runes_of_ascii " emoji
-match u as
-    Packet
-    {
-    ""it's"" :
-_x	, 10 : BodyLength , ""\n"" :
-float 4294967296 :falsey , 007 :	charz
-,00 :stringy , },  repeat string_ ,
-}root packet
-Foo	{ repeat
-    // " ++ [27880; 37322]%N ++ runes_of_ascii "
-    char[	7 ] lengthOf `
-`
-    ,
-//	t
-//x
-@lengthOf( Packet ) repeat // `tick` ""quote"" 'q'
-i32 float , options1 _x	`{ , }`
+    @lengthOf(pack)
+    // 50% %s
+    @rightPad('\x00')
+    repeat char[42] f32a `doc`,
+    @rightPad('0')
+    BodyLength {
+        u16 calculatedFrom @calculatedFrom(""a\\"") `crlf
+        line`,
+    },
+    a1 {
+        u pack,
+        repeat o {
+            // " ++ [27880; 37322]%N ++ runes_of_ascii "
+            match int as falsey {
+                ""CRC32"" : uint8x,
+                7 : repeatCount,
+                ""// no comment"" : i8i8,
+                // " ++ [128512]%N ++ runes_of_ascii " emoji
+                65535 : charz,
+            },
+        },
+        falsey x_y_z,
+        u16 i64_ @lengthOf(falsey) `" ++ [233]%N ++ runes_of_ascii "`,
+    },
+    match int as T {
+        7 : int,
+    },
+}
+
+packet roots {
+    zchar[1] T @lengthOf(BodyLength) `{ , }`,
+    match Z9_ as rootA {
+        00 : f32a,
+    },
+    @lengthOf(u8x)
+    f64 T @lengthOf(As) `two words`,
+    i64_ matchKey `a\`,
+    @calculatedFrom(""" ++ [233]%N ++ runes_of_ascii "t" ++ [233]%N ++ runes_of_ascii """)
+    u32 falsey @lengthOf(u128) `two words`,
+    u64 u8x @calculatedFrom(""it's"") `it's`,
+    char[0] len @calculatedFrom(""" ++ [128512]%N ++ runes_of_ascii """) `" ++ [233]%N ++ runes_of_ascii "`,
+    @tag(255)
+    match stringy as Foo {
+        007 : u,
+        7 : BodyLength,
+        1 : f32a,
+        4294967296 : crc,
+        """ ++ [28040; 24687]%N ++ runes_of_ascii """ : chars,
+    },
+    // " ++ [128512]%N ++ runes_of_ascii " emoji
+}
+
+MetaData matchKey {
+}
+
+root packet pack {
+    @lengthOf(Header)
+    u8 len @lengthOf(x_y_z) ``,
+    @tag(4294967296)
+    repeat matchKey {
+        int8 pack,
+    },
+    @tag(65535)
+    @rightPad()
+    @lengthOf(Pad)
+    uint8x `it's`,
+    repeat zchar {
+        match uint8x as u128 {
+            ""it's"" : chars,
+        },
+    },
+    @calculatedFrom(""x y"")
+    @leftPad(' ')
+    @lengthOf(zchar)
+    float64 charz,
+    @lengthOf(repeatCount)
+    repeat f32a {
+        repeat i8 _x `it's`,
+    },
+    Z9_ @lengthOf(Header) `
+    `,
+    lengthOf x,
+}")).
+Eval vm_compute in ("<<<M621>>>" ++ check (runes_of_ascii "packet uint8x{
+@lengthOf( lengthOf )@lengthOf(	roots ) repeat i64_ crc`` , @lengthOf(
+BodyLength ) repeat
+charz
+{ packetx	{  match // 50% %s
+u128 as crc // trailing space 
+{ ""it's""  : options1 , 1
+    // @lengthOf(
+    :asx, }
+,//x
+zchar[
+3 ]
+float
+@calculatedFrom(""packet""
+    )
+`it's` ,match
+x_y_z as tag {
+    0 : repeatCount , }
 , }
-")).
-Eval vm_compute in ("<<<M381>>>" ++ check (runes_of_ascii "options {
+, repeat	string options1, char[65535
+] stringy
+    ,
+    char[]
+f32a @lengthOf(
+o ) `line1
+line2`
+, } ,
+    @calculatedFrom(""CRC32"" )/// triple
+rootA
+    `" ++ [28040; 24687; 31867; 22411]%N ++ runes_of_ascii "` , @tag( 1 )zchar calculatedFrom,
+int
+// c
+// trailing space 
+{ Logon  `// not a comment` ,
+u Z9_ `crlf
+line`,
+char[
+/// triple
+// packet A { u8 x, }
+007 ]a1 `a\` ,char[]options1	,	}
+    , @lengthOf(
+matchKey // " ++ [128512]%N ++ runes_of_ascii " emoji
+)
+    Logon @calculatedFrom( ""{,}""	)`{ , }` , u128 body `two words` , } MetaData
+    matchKey { /// triple
+int32 _x ,  } packet u8x
+    {match len as
+    calculatedFrom {
+    [""// no comment""
+    ,  ""CRC32""
+// @lengthOf(
+// " ++ [128512]%N ++ runes_of_ascii " emoji
+]
+:rootA , 65535:
+    // packet A { u8 x, }
+    crc ,
+    007 : // c
+zchar , 4294967296 : metadata
+    // packet A { u8 x, }
+    , }
+    ,@calculatedFrom(""CRC32"") repeat
+//	t
+// 50% %s
+char[ 007
+    ]
+As
+    , @calculatedFrom(
+    ""\" ++ [233]%N ++ runes_of_ascii """)i16 u128
+`a\`
+, repeat u8x
+    {repeat len  zchar ,	BodyLength	calculatedFrom ,
+}	, @calculatedFrom( """") A @calculatedFrom(""1""
+    // a // b
+    ) `100% of %d` ,} packet
+o{
+    //	t
+    @calculatedFrom(""CRC32"" ) string
+    // `tick` ""quote"" 'q'
+    body @lengthOf(
+int
+)`line1
+line2` ,
+u64
+    // " ++ [128512]%N ++ runes_of_ascii " emoji
+    crc  `
+` , BodyLength@lengthOf(Header ), tag @lengthOf(matchKey
+) ,char[
+    255 ] repeatCount `doc`
+,
+@lengthOf( Logon )	string
+A @calculatedFrom( """ ++ [128512]%N ++ runes_of_ascii """ ) `it's` ,
+a1 Foo
+    /// triple
+    , //
+} options {T = false  } //")).
+Eval vm_compute in ("<<<M1347>>>" ++ check (runes_of_ascii "packet	Z9_
+// " ++ [27880; 37322]%N ++ runes_of_ascii "
+// 50% %s
+{ match asx	as pack {
+    ""abc"" :
+    //
+    x_y_z ,},
+    //	t
+    @tag( 00 )
+repeat zchar[ 65535 ] len ,
+@calculatedFrom( ""abc"" )
+@lengthOf(	stringy )
+    string_ `" ++ [233]%N ++ runes_of_ascii "`,  u, uint32 msg_type @lengthOf(
+    falsey )  `100% of %d` , u32 u8x// `tick` ""quote"" 'q'
+@calculatedFrom( """ ++ [28040; 24687]%N ++ runes_of_ascii """)
+    `tab	here`
+    ,	zchar[ 00 ] Z9_
+@lengthOf(
+matchKey ) , } packet zchar {
+match len as metadata{
+    """":i8i8""{,}""	: uint8x , }// trailing space 
+,
+@tag( 10 )//	t
+@calculatedFrom( ""a	b"" ) @leftPad ( '0' )f64 string_ ,  trueish {
+char[1	] T @calculatedFrom(
+//x
+//	t
+""// no comment"" ) ,}// a // b
+, zchar[ 4294967296 ] /// triple
+stringy @calculatedFrom(/// triple
+""CRC32""
+    ) `doc`
+    , }packet a1
+{ repeat i64
+    packetx , }
+    options { // c
+len =zchar[ 007
+// 50% %s
+// c
+] ;
+}	packet roots{
+    i32 metadata , //
+@lengthOf( metadata) @tag(// a // b
+7 )  @lengthOf( roots ) match
+options1 as u128
+{ [
+    // `tick` ""quote"" 'q'
+    ""1""/// triple
+, 255
+, ""`tick`"" , 1,42
+,  ""packet""] :
+i64_ 42 : x_y_z
+    //
+    ,10: f32a , } ,
+@rightPad ( '0') @tag(
+    0
+    )  @calculatedFrom("""") int8
+Header , zchar[
+    007 ]
+_x , len ,
+    @tag( 007 )// 50% %s
+string Packet @lengthOf( lengthOf // trailing space 
+) ,zchar[ 00 ]len
+,float64 Z9_ @lengthOf(charz )
+, x_y_z {
+repeat packetx {u
+@lengthOf(
+// `tick` ""quote"" 'q'
+//	t
+matchKey
+)
+`{ , }`
+// a // b
+//	t
+, } ,float32 falsey `tab	here` ,
+char[]
+    int  `
+`
+,
+    // 50% %s
+    zchar[ 0 ]As , } ,
+    } // " ++ [128512]%N ++ runes_of_ascii " emoji")).
+Eval vm_compute in ("<<<M1409>>>" ++ check (runes_of_ascii "options {
     StringPrefixLenType = u16;
     ArrayPrefixLenType = u16;
 }
@@ -175,886 +362,2305 @@ packet Detail {
     string RuleName `" ++ [35268; 21017; 21517; 31216]%N ++ runes_of_ascii "`,
     u16 Code `" ++ [21407; 22240; 20195; 30721]%N ++ runes_of_ascii "`,
 }")).
-Eval vm_compute in ("<<<M276>>>" ++ check (runes_of_ascii "
-packet body {match u as f32a {  ""// no comment""	:
-    float ,}	,
+Eval vm_compute in ("<<<M3800>>>" ++ check (runes_of_ascii "MetaData pack {
     // trailing space 
-    float32 int ,
-    char[]tag `u8 x,`
-    // packet A { u8 x, }
-    , @lengthOf( body ) repeat // " ++ [27880; 37322]%N ++ runes_of_ascii "
-i64_ crc
-,@leftPad ('0' ) float64 zchar
-    , // packet A { u8 x, }
-@lengthOf( A)
-@leftPad  ( ) @lengthOf( int
-)
-    //
-    crc	@calculatedFrom( ""1"") ,
-    }  root packet
-    body{
-    /// triple
-    @lengthOf( T
-    ) repeat
-u128 `line1
-line2` ,
-string // `tick` ""quote"" 'q'
-BodyLength , @calculatedFrom( ""x y"" ) char[] zchar @calculatedFrom(
-    ""a\""b"")	`" ++ [28040; 24687; 31867; 22411]%N ++ runes_of_ascii "` //x
-, falsey//	t
-trueish	, /// triple
-@rightPad // @lengthOf(
-( '\x00'  )	@lengthOf( As) @tag( 4294967296  )repeat char[] uint8x , packetx,
-    @tag(
-7 )
-    //
-    i64 roots
-// `tick` ""quote"" 'q'
-// " ++ [27880; 37322]%N ++ runes_of_ascii "
-@calculatedFrom( """ ++ [233]%N ++ runes_of_ascii "t" ++ [233]%N ++ runes_of_ascii """
-)  `// not a comment`
-    , @calculatedFrom( ""x y"" )
-    /// triple
-    f64 float@lengthOf(
-    Packet // " ++ [27880; 37322]%N ++ runes_of_ascii "
-), @tag(  4294967296 ) u32
-lengthOf@calculatedFrom(""\" ++ [233]%N ++ runes_of_ascii """)// c
-, @tag(	10 ) Foo ,
-}	packet leftPad { } options {i8i8 =zchar[ 7 ]}")).
-Eval vm_compute in ("<<<M1531>>>" ++ check (runes_of_ascii "options {
-    MetaDataX = ' ';
-    trueish = """ ++ [233]%N ++ runes_of_ascii "t" ++ [233]%N ++ runes_of_ascii """;
-    /// triple
+    float32 pack `say ""hi""`,
 }
 
-packet BodyLength {
-    @lengthOf(repeatCount)
-    char[65535] crc @calculatedFrom(""""),
-    zchar[0] x_y_z @calculatedFrom(""packet"") `a\`,
-}
-
-packet Header {
-    repeat T {
-        //x
-        //x
-        u128 chars,
+root packet body {
+    @calculatedFrom(""it's"")
+    uint8x Pad,
+    string chars,
+    int8 a1 @lengthOf(A),
+    pack {
+        o {
+            repeat Header MetaDataX,
+        },
+        charz,
+        Header @calculatedFrom(""\n""),
     },
-    match Pad as crc {
-        ""a\""b"" : x,
+    @lengthOf(o)
+    match asx as int {
+        ""`tick`"" : x_y_z,
+        4294967296 : u8x,
+        ""a	b"" : repeatCount,
+        ""a	b"" : Pad,
+        10 : packetx,
     },
-    @lengthOf(rootA)
-    @lengthOf(stringy)
-    i32 x,
-    @calculatedFrom(""" ++ [128512]%N ++ runes_of_ascii """)
-    int8 u @lengthOf(Pad) `doc`,
-    @tag(65535)
+    A o,
+    Packet {
+        u `doc`,
+        repeat Header u8x,
+        i8i8 As,
+    },
+    @calculatedFrom(""a\\"")
     charz {
-        a1 _x,
-        repeat float32 Header `say ""hi""`,
-        char u,
-    },
-    //x
-    @leftPad()
-    @leftPad('0')
-    @rightPad('\x00')
-    match falsey as As {
-        // " ++ [128512]%N ++ runes_of_ascii " emoji
-        ""a\\"" : pack,
-    },
-    repeat metadata,
-    match i8i8 as u {
-        [4294967296, 42] : uint8x,
-    },
-    repeat uint16 chars `u8 x,`,
-    u16 repeatCount `crlf
-        line`,
-}
-
-packet tag {
-    char[7] trueish,
-    int8 string_ ``,
-}")).
-Eval vm_compute in ("<<<M1774>>>" ++ check (runes_of_ascii "root packet options1 {
-    @lengthOf(Packet)
-    //x
-    //	t
-    repeat chars {
-        repeatCount u128,
-        match u as BodyLength {
-            [65535] : packetx,
-            3 : zchar,
-            255 : roots,
-            """ ++ [233]%N ++ runes_of_ascii "t" ++ [233]%N ++ runes_of_ascii """ : Header,
+        char[] a1,
+        string Pad,
+        x repeatCount,
+        metadata {
+            // c
+            chars {
+                body `
+                `,
+                string u8x @lengthOf(u128),
+                match string_ as BodyLength {
+                    [""`tick`""] : a1,
+                    ""packet"" : charz,
+                },
+            },
+            char[] repeatCount,
+            int16 msg_type,
+            uint8x,
         },
-        i64 Packet,
-        char[] uint8x @calculatedFrom(""// no comment"") `crlf
-                line`,
     },
-    string trueish,
-    @leftPad(' ')
-    i8i8 {
-        /// triple
-        float64 T @lengthOf(leftPad),// @lengthOf(
-        u128 `" ++ [233]%N ++ runes_of_ascii "`,
-        lengthOf,// a // b
-        matchKey,
-    },
-    repeat char[1] MetaDataX `a\`,
-    // c
-    // " ++ [128512]%N ++ runes_of_ascii " emoji
-    @calculatedFrom(""1"")
-    string chars `it's`,
-    char[] calculatedFrom @lengthOf(calculatedFrom) `doc`,
-    rootA _x `" ++ [28040; 24687; 31867; 22411]%N ++ runes_of_ascii "`,
-}
-
-MetaData calculatedFrom {
-    u tag `
-        `,
-}")).
-Eval vm_compute in ("<<<M1960>>>" ++ check (runes_of_ascii "packet int {
-    len T,
-}
-
-MetaData trueish {
-    // packet A { u8 x, }
-}
-
-packet BodyLength {
-    @calculatedFrom(""packet"")
-    @calculatedFrom(""CRC32"")
-    // c
-    @tag(00)
-    char[4294967296] stringy,
-    @lengthOf(leftPad)
-    // c
-    char zchar,
-    @lengthOf(MetaDataX)
-    @tag(10)
-    // " ++ [128512]%N ++ runes_of_ascii " emoji
-    @rightPad('0')
-    options1 matchKey `{ , }`,
-    @tag(42)
-    @tag(1)
-    @tag(10)
-    char[] stringy `doc`,
-    msg_type `" ++ [233]%N ++ runes_of_ascii "`,
-    @lengthOf(trueish)
-    body {
-        repeat o stringy `crlf
-                line`,
-        repeat u32 i8i8,
-        char[65535] stringy `a\`,
-        //x
-    },
-    @calculatedFrom(""packet"")
-    matchKey,
-    @tag(4294967296)
-    uint32 rootA @lengthOf(trueish),
-    string body `u8 x,`,
-}")).
-Eval vm_compute in ("<<<M1177>>>" ++ check (runes_of_ascii "// top
-options // c0
-{ // c1
-chars // c2
-= // c3
-""a\\"" // c4
-} // c5
-packet // c6
-Z9_ // c7
-{ // c8
-match // c9
-BodyLength // c10
-as // c11
-roots // c12
-{ // c13
-""" ++ [28040; 24687]%N ++ runes_of_ascii """ // c14
-: // c15
-falsey // c16
-, // c17
-00 // c18
-: // c19
-u128 // c20
-0 // c21
-: // c22
-len // c23
-, // c24
-007 // c25
-: // c26
-f32a // c27
-} // c28
-, // c29
-@tag( // c30
-3 // c31
-) // c32
-@calculatedFrom( // c33
-""`tick`"" // c34
-) // c35
-@leftPad // c36
-( // c37
-' ' // c38
-) // c39
-string // c40
-asx // c41
-, // c42
-string // c43
-u // c44
-@lengthOf( // c45
-options1 // c46
-) // c47
-, // c48
-float32 // c49
-i64_ // c50
-@calculatedFrom( // c51
-""a\""b"" // c52
-) // c53
-, // c54
-} // c55
-")).
-Eval vm_compute in ("<<<M2037>>>" ++ check (runes_of_ascii "
-// c
-  options {
-
-    i8i8= 
-""" ++ [28040; 24687]%N ++ runes_of_ascii """ 
-
-// trailing space 
-; Pad
-
-    =
-
-' '
-}
-
-    root  packet	i8i8
-{
-i64
-
-matchKey
-
-    `" ++ [233]%N ++ runes_of_ascii "` , match
-repeatCount	as
-    x 	 // @lengthOf(
-	{ 
-    //	t
-	  // a // b
-
-	42 :	float
-,  007 
-: u 
-,
-} 
-// trailing space 
-    	//x
-
-  , @calculatedFrom(
-""a	b""	)	string_ 
-      // @lengthOf(
-/// triple
-
-	{
-
-matchKey
-string_
-
-    , 	 // trailing space 
-},
-    repeat
-	char[]
-    repeatCount,
-
-    }
-    options // a // b
-  {msg_type
-
-    =
-
-true	; int
-    // " ++ [128512]%N ++ runes_of_ascii " emoji
-
-	// " ++ [27880; 37322]%N ++ runes_of_ascii "
-	=
-	u16 string_
-
-= false;} ")).
-Eval vm_compute in ("<<<M1757>>>" ++ check (runes_of_ascii "packet i64_ {
-}
-
-packet crc {
-}
-
-options {
-}
-
-root packet charz {
-}
-
-packet trueish {
-    repeat char[255] lengthOf `" ++ [28040; 24687; 31867; 22411]%N ++ runes_of_ascii "`,
-    zchar[00] x `it's`,/// triple
-    repeat char[] Packet `say ""hi""`,
-    @calculatedFrom(""x y"")
-    char[1] lengthOf,
-    lengthOf `crlf
-    line`,
-    match charz as MetaDataX {
-        ""a	b"" : uint8x,
-        ""\n"" : calculatedFrom,
-    },
-    @tag(10)
-    float64 i8i8 @calculatedFrom(""" ++ [128512]%N ++ runes_of_ascii """) `say ""hi""`,
-    @rightPad('\x00')
-    i32 Foo `it's`,
-}")).
-Eval vm_compute in ("<<<M1575>>>" ++ check (runes_of_ascii "options {
-    LittleEndian = false;
-    StringPrefixLenType = u8;
-    ArrayPrefixLenType = u16;
-    FixedStringPadFromLeft = false;
-}
-
-packet Heartbeat {
-    u8 seqNo,
-    @rightPad('\x00')
-    char[8] x,
-}
-
-root packet Trade {
-    repeat Heartbeat,
-    float32 OrderId,
-    i64 Acct,
-    u16 Qty,
-    u16 clOrdID,
-    match clOrdID as Body {
-        131 : Heartbeat,
-    },
-    u16 sym @calculatedFrom(""CRC32""),
-}")).
-Eval vm_compute in ("<<<M190>>>" ++ check (runes_of_ascii "packet x_y_z
-    {@calculatedFrom( """"
-) repeat
-// `tick` ""quote"" 'q'
-// `tick` ""quote"" 'q'
-_x f32a , @calculatedFrom(
-    ""it's"")chars
-// c
-// `tick` ""quote"" 'q'
-,
-    int32 u8x// `tick` ""quote"" 'q'
-, // c
-}options
-    // " ++ [128512]%N ++ runes_of_ascii " emoji
-    {crc	= """ ++ [233]%N ++ runes_of_ascii "t" ++ [233]%N ++ runes_of_ascii """ }root packet  string_{ } packet x  { u8x
-    Packet
-    ,
-i32 float, } options
-    {Pad =  4294967296 ; leftPad
-= """ ++ [233]%N ++ runes_of_ascii "t" ++ [233]%N ++ runes_of_ascii """}
-")).
-Eval vm_compute in ("<<<M142>>>" ++ check (runes_of_ascii "options { i8i8  =
-    int64 ; charz = ""// no comment""; repeatCount ="""" ; f32a = 0 stringy ='\x00' }
-    // packet A { u8 x, }
-    options
-    {
-Logon = 255
-}
-    packet Header // c
-{} MetaData
-lengthOf{
+    @lengthOf(float)
     // `tick` ""quote"" 'q'
-    }
-options {stringy  =false ; options1
-= true ; asx=3
-/// triple
-/// triple
-roots =
-'\x00' }
-")).
-Eval vm_compute in ("<<<M1204>>>" ++ check (runes_of_ascii "// top
-packet
-    // c0
-o
-    // c1
-{
-    // c2
-@tag(
-    // c3
-42
-    // c4
-)
-    // c5
-repeat
-    // c6
-x
-    // c7
-{
-    // c8
-char[
-    // c9
-0123456789
-    // c10
-]
-    // c11
-i64_
-    // c12
-,
-    // c13
-}
-    // c14
-,
-    // c15
-}
-    // c16
-options
-    // c17
-{
-    // c18
-}
-    // c19
-")).
-Eval vm_compute in ("<<<M65>>>" ++ check (runes_of_ascii "packet
-    BodyLength { repeat char[
-    1 ]
-options1
-`it's`
-// c
-// " ++ [128512]%N ++ runes_of_ascii " emoji
-, x_y_z{
-    packetx @lengthOf(zchar ) `tab	here` , repeat _x a1 ,
-} , } packet roots{ // `tick` ""quote"" 'q'
-}	options  { Foo	=char[ 1] // " ++ [27880; 37322]%N ++ runes_of_ascii "
-;charz
-=
-1
-; Packet = ""`tick`"" }
-//x
-")).
-Eval vm_compute in ("<<<M1357>>>" ++ check (runes_of_ascii "// top
-packet // c0a
-  // c0b
-B // c1a
-  // c1b
-{ u8 // c3a
-  // c3b
-a // c4
-, string
-    // c6
-s , // c8
-} // c9
-root
-    // c10
-packet // c11
-P // c12
-{ u16 L @lengthOf( B ) , // c19
-B // c20a
-  // c20b
-, u8
-    // c22
-t , } // c25
-")).
-Eval vm_compute in ("<<<M1753>>>" ++ check (runes_of_ascii "packet calculatedFrom {
-    @lengthOf(zchar)
-    char[] chars `line1
-        line2`,
-    string Logon @calculatedFrom(""it's""),
-    matchKey `say ""hi""`,
-    @lengthOf(T)
-    x_y_z @calculatedFrom(""it's"") `// not a comment`,
-}")).
-Eval vm_compute in ("<<<M429>>>" ++ check (runes_of_ascii "options
-{
-matchKey = 42/// triple
-x='0' '0'
-// packet A { u8 x, }
-//
-charz
-=
-// packet A { u8 x, }
-// trailing space 
-true  ; } MetaData BodyLength
-{
-uint8
-pack,zchar[ 1]float ,  float32 x_y_z `` ,u32
-_x,i16 body  , }
-")).
-Eval vm_compute in ("<<<M573>>>" ++ check (runes_of_ascii "options
-{
-matchKe/y = 42/// triple
-x='0' ;
-// packet A { u8 x, }
-//
-charz
-=
-// packet A { u8 x, }
-// trailing space 
-true  ; } MetaData BodyLength
-{
-uint8
-pack,zchar[ 1]float ,  float32 x_y_z `` ,u32
-_x,i16 body  , }
-")).
-Eval vm_compute in ("<<<M513>>>" ++ check (runes_of_ascii "options
-{
-matchKey = 42/// triple
-x='0' ;
-// packet A { u8 x, }
-//
-charz
-=
-// packet A { u8 x, }
-// trailing space 
-true  ; } MetaData BodyLength
-{
-uint8
-pack,zchar[ 1]float ,  x_y_z float32 `` ,u32
-_x,i16 body  , }
-")).
-Eval vm_compute in ("<<<M313>>>" ++ check (runes_of_ascii "
-packet	stringy
-//	t
-// " ++ [128512]%N ++ runes_of_ascii " emoji
-{ match calculatedFrom // a // b
-as MetaDataX { [ ""a\\"", """ ++ [28040; 24687]%N ++ runes_of_ascii """,// `tick` ""quote"" 'q'
-""CRC32"" ,
-10 ]:x,
-    /// triple
-    0
-:  falsey
-, 1 :u8x ,
-//x
-// c
-65535
-    :	Foo , }
-,
-    }")).
-Eval vm_compute in ("<<<M456>>>" ++ check (runes_of_ascii "options
-{
-matchKey = 42/// triple
-x='0' ;
-// packet A { u8 x, }
-//
-charz
-=
-// packet A { u8 x, }
-// trailing space 
-true  ; }  BodyLength
-{
-uint8
-pack,zchar[ 1]float ,  float32 x_y_z `` ,u32
-_x,i16 body  , }
-")).
-Eval vm_compute in ("<<<M315>>>" ++ check (runes_of_ascii "packet// " ++ [27880; 37322]%N ++ runes_of_ascii "
-trueish { match f32a
-as stringy	{ """ ++ [28040; 24687]%N ++ runes_of_ascii """ : _x ,
-1 : //x
-stringy
-    ,
-    65535 :u8x 65535: // trailing space 
-asx
-// packet A { u8 x, }
-// c
-,  }
-    // packet A { u8 x, }
-    , }")).
-Eval vm_compute in ("<<<M677>>>" ++ check (runes_of_ascii "// c
-packet i64_ {	char[] calculatedFrom , } packet
-trueish  {@calculatedFrom(
-""a\\"" ) o { i32 falsey@lengthOf( uint8x ),
-} , } // `tick` ""quote"" 'q'
-options true// c
-Z9_ = ' '//
-}
-")).
-Eval vm_compute in ("<<<M695>>>" ++ check (runes_of_ascii "// c
-packet i64_ {	char[] calculatedFrom , } packet
-trueish  {@calculatedFrom(
-""a\\"" )  { i32 falsey@lengthOf( uint8x ),
-} , } // `tick` ""quote"" 'q'
-options {// c
-Z9_ = ' '//
-}
-")).
-Eval vm_compute in ("<<<M183>>>" ++ check (runes_of_ascii "packet x_y_z{  } packet  Logon { repeat i8 int
-,} root packet stringy
-{ char chars ,
-char[] a1@calculatedFrom( ""// no comment"" )`// not a comment`, string
-    Logon , }
-")).
-Eval vm_compute in ("<<<M1565>>>" ++ check (runes_of_ascii "packet A {
-    Inner {
-        match k as n {
-            [
-                1, 22, 007, 4, 5,
-                66, 7, 8
-            ] : B,
-        },
+    match trueish as Header {
+        // packet A { u8 x, }
+        [""{,}"", ""1""] : f32a,
     },
 }")).
-Eval vm_compute in ("<<<M1626>>>" ++ check (runes_of_ascii "root packet stringy {
-    @tag(7)
-    @tag(1)
-    @rightPad('\x00')
-    Foo x `crlf
-        line`,
-    @calculatedFrom(""a	b"")
-    roots `it's`,
-}")).
-Eval vm_compute in ("<<<M309>>>" ++ check (runes_of_ascii "options {
-Pad = // " ++ [27880; 37322]%N ++ runes_of_ascii "
-3 ; float =
-false
-    // packet A { u8 x, }
-    ;
-Z9_ =""packet""	chars=
-""a\""b"" float=
-""a\\""} MetaData zchar { } 	 ")).
-Eval vm_compute in ("<<<M1770>>>" ++ check (runes_of_ascii "
-packet 
-A
-    {	match k
-as
-
-n  { [
-1
-
-,
-    22
-	,	007 ,4
-
-    ,	5	,
-	66
-, 7,8 ,
-9
-
-,
-10,  11 ]
-:
-
-    B
-2  :
-
-C	} 
-,	}
-")).
-Eval vm_compute in ("<<<M1669>>>" ++ check (runes_of_ascii "
-packet
-
-    o{
-    @tag(  42
-) repeat x
-    {
-    char[ 
-0123456789 
-]
-
-    i64_
-	, }	,
-// c
-      } options
-{
+Eval vm_compute in ("<<<M4242>>>" ++ check (runes_of_ascii "packet chars {
+    zchar[1] u8x @lengthOf(uint8x),
+    @calculatedFrom(""{,}"")
+    roots `say ""hi""`,
+    int8 asx `{ , }`,
+    // `tick` ""quote"" 'q'
+    // trailing space 
+    @calculatedFrom(""a\""b"")
+    //x
+    i8 _x `// not a comment`,
 }
 
-")).
-Eval vm_compute in ("<<<M1722>>>" ++ check (runes_of_ascii "
-packet
-A 
-{ u16
-    len@lengthOf(	body
-)  `tab
-	x` , u32	crc @calculatedFrom(  ""CRC32"") `tab
-	x` ,
+root packet metadata {
+    //x
+    zchar[3] u128 @calculatedFrom(""a\""b"") `two words`,
+    @rightPad(' ')
+    @calculatedFrom(""// no comment"")
+    @lengthOf(Logon)
+    char[] Packet,
+    @rightPad('0')
+    trueish matchKey `line1
+        line2`,
+    @tag(65535)
+    @lengthOf(f32a)
+    @tag(0123456789)
+    match zchar as falsey {
+        10 : len,
+        [
+            """ ++ [128512]%N ++ runes_of_ascii """, ""a	b"", ""CRC32"", ""x y"", 3,
+            7, ""\" ++ [233]%N ++ runes_of_ascii """, 7
+        ] : options1,
+        ""\n"" : Packet,
+        0 : float,
+        """ ++ [28040; 24687]%N ++ runes_of_ascii """ : zchar,
+        4294967296 : Packet,
+    },
+    zchar[0123456789] lengthOf,
+    zchar {
+        zchar[0] Z9_,
+    },
+    float `it's`,
+    repeat Z9_ {
+        repeat options1,
+        i32 As,
+        // @lengthOf(
+        string stringy @lengthOf(leftPad) `{ , }`,
+        //
+    },
+    char[10] x,
+}
 
-string  body
-, }")).
-Eval vm_compute in ("<<<M633>>>" ++ check (runes_of_ascii "MetaData
-    // trailing space 
-    matchKey
-{ u64 chars // a // b
-,char[] lengthOf `// not a comment`
-    } //	t
-,")).
-Eval vm_compute in ("<<<M144>>>" ++ check (runes_of_ascii "  packet rootA	{ int @lengthOf(
-    Packet // packet A { u8 x, }
-) // `tick` ""quote"" 'q'
-`// not a comment` , }
+root packet As {
+    @tag(00)
+    // `tick` ""quote"" 'q'
+    repeat string i64_,
+}// " ++ [27880; 37322]%N)).
+Eval vm_compute in ("<<<M1314>>>" ++ check (runes_of_ascii "MetaData i64_ { i32 lengthOf
+,} options { Header = ' '
+    ; MetaDataX = int16 }options { len =' ' ; f32a
+    // @lengthOf(
+    = ' '
+    ;packetx	=
+char[
+0123456789  ] rootA= 00 ;
+body =
+true; } packet x {Z9_, @rightPad ( )	@lengthOf( As )
+    int64 MetaDataX
+@calculatedFrom(
+""" ++ [233]%N ++ runes_of_ascii "t" ++ [233]%N ++ runes_of_ascii """
+    )
+,	Header  @calculatedFrom( ""{,}"")`crlf
+line`, @tag(
+3) repeat x { match u128 as options1 { ""a\\"" :
+    calculatedFrom ,[	007,""\n"", 0 ]	: Z9_, 4294967296 : a1 ,	[
+    ""it's"" , ""CRC32"", """ ++ [28040; 24687]%N ++ runes_of_ascii """ // c
+,  ""x y""
+    ,65535, 7 ,10,//x
+007
+    // `tick` ""quote"" 'q'
+    ]
+    :Z9_ , [ """"
+, 3 ] :x_y_z,
+}
+    , f64 repeatCount@lengthOf( A)  `tab	here`
+, // packet A { u8 x, }
+charz `
+`
+// " ++ [27880; 37322]%N ++ runes_of_ascii "
+// 50% %s
+,} ,
+@calculatedFrom( ""{,}""
+    )
+// 50% %s
+// trailing space 
+@tag(
+    // @lengthOf(
+    1
+//	t
+//	t
+) char[]Header ,	@lengthOf(falsey )
+    char[] Header ,} packet
+    // packet A { u8 x, }
+    a1 {
+@calculatedFrom( ""CRC32"")uint16
+    A, int8 packetx
+    @calculatedFrom( ""\n""
+), T
+@calculatedFrom( ""// no comment""
+) , repeat char[
+3 ] // @lengthOf(
+calculatedFrom , }
 ")).
-Eval vm_compute in ("<<<M48>>>" ++ check (runes_of_ascii "//x
-packet uint8x { u8 // packet A { u8 x, }
-roots `a\`	, match len
-as charz{
-[ 3 , """" ] : Z9_
+Eval vm_compute in ("<<<M4139>>>" ++ check (runes_of_ascii "  packet packetx  {
+
+}	MetaData	u128
+{
+
+}  MetaData 
+calculatedFrom 	 // 50% %s
+{ repeatCount
+
+    Packet
+
+    ,a1
+    rootA
+`{ , }`
+
+    , float64
+
+    rootA `" ++ [28040; 24687; 31867; 22411]%N ++ runes_of_ascii "`
+, 
+u
+	trueish
+    //
+    //	t
+
+`100% of %d`
+    ,
+	As
+
+    i8i8 , 	 // " ++ [128512]%N ++ runes_of_ascii " emoji
+	  }
+
+    //x
+  packet  a1{  // " ++ [128512]%N ++ runes_of_ascii " emoji
+	@lengthOf(
+packetx  )
+A @lengthOf( T ) `" ++ [233]%N ++ runes_of_ascii "`
+    ,	repeat  i32 
+rootA
+`" ++ [233]%N ++ runes_of_ascii "`
+
+, 	 //x
+  repeat
+	u16 	 // trailing space 
+  metadata
+	,@calculatedFrom( ""x y"" )
+@leftPad	( '0'
+)
+	repeat zchar[ 255 ]	matchKey, // a // b
+	match rootA
+
+as
+u128 {
+[	7  ,
+	""1"" , 
+""{,}""  ,	""packet"" ,
+	3 
+]	:u, """ ++ [233]%N ++ runes_of_ascii "t" ++ [233]%N ++ runes_of_ascii """ 
+: 
+tag 
+	    /// triple
+    // " ++ [27880; 37322]%N ++ runes_of_ascii "
+
+00
+
+:
+    T 
+, 10
+	:
+
+    leftPad
+,
+
+""x y"" : options1 ,
+// packet A { u8 x, }
+  //
+	}
+	,
+
+    @calculatedFrom(
+""packet""
+
+)
+match
+As
+	as
+    len
+
+    {4294967296
+	: trueish 
+,42  : 	 // trailing space 
+lengthOf
+	, } ,
+    @tag( 
+1 )string
+    _x	@lengthOf(
+    string_ )
+    ,  char[]  BodyLength@lengthOf(  int
+
+    )	`100% of %d`
+
+,  i8
+pack ,	}")).
+Eval vm_compute in ("<<<M3540>>>" ++ check (runes_of_ascii "// top
+options // c0a
+  // c0b
+{ // c1a
+  // c1b
+StringPrefixLenType = // c3a
+  // c3b
+u32 ; // c5a
+  // c5b
+FixedStringPadFromLeft // c6
+= // c7a
+  // c7b
+false ;
+    // c9
+} // c10
+packet // c11
+Logout
+    // c12
+{ // c13
+f64 Flags // c15a
+  // c15b
+, // c16a
+  // c16b
+repeat // c17a
+  // c17b
+InTail1 // c18a
+  // c18b
+{ // c19
+int32 // c20a
+  // c20b
+Flags // c21a
+  // c21b
+, // c22a
+  // c22b
+zchar[ // c23a
+  // c23b
+1
+    // c24
+] // c25a
+  // c25b
+tag7 , } // c28a
+  // c28b
+, // c29
+repeat // c30
+string
+    // c31
+x // c32a
+  // c32b
+, // c33a
+  // c33b
+} root // c35a
+  // c35b
+packet Trade { repeat f32 // c40a
+  // c40b
+Acct // c41a
+  // c41b
+, // c42
+InTail62
+    // c43
+{ // c44
+u32 // c45a
+  // c45b
+Qty // c46
+, zchar[ // c48
+1 // c49a
+  // c49b
+]
+    // c50
+x // c51a
+  // c51b
+, } // c53a
+  // c53b
+, // c54
+repeat // c55
+string Side2
+    // c57
+, // c58
+u16 // c59
+Ref // c60
+, // c61a
+  // c61b
+} // c62a
+  // c62b
+")).
+Eval vm_compute in ("<<<M4554>>>" ++ check (runes_of_ascii "// top
+  packet 
+	// c0
+stringy// c1a
+
+// c1b
+		{ 	 // c2
+	BodyLength	// c3a
+// c3b
+
+`crlf
+line` // c4
+  , 
+// c5
+  @calculatedFrom(
+    // c6
+	""`tick`"" 
+	    // c7
+
+) 
+	// c8
+	zchar[ 
+	    // c9
+    007 	 // c10
+  ]// c11
+  Header // c12a
+// c12b
+
+, 
+
+    // c13
+		@lengthOf( body	) // c16a
+  // c16b
+    zchar[ 42
+        // c18
+  ]  // c19
+	pack // c20a
+    // c20b
+
+,} 
+    // c22
+    packet // c23
+Z9_	// c24
+		{
+	// c25
+    @lengthOf( 	 // c26a
+	  // c26b
+
+i64_// c27
+  	) // c28
+  char[// c29
+
+255
+
+    // c30
+	] 	 // c31
+  	u // c32a
+	// c32b
+  `u8 x,` 
+,  // c34a
+  // c34b
+    @lengthOf(	MetaDataX	// c36a
+// c36b
+		)	// c37a
+
+// c37b
+
+	@calculatedFrom( 
+    // c38
+	  ""\n"" 
+// c39
+  	) 	 // c40
+
+  float32 
+	// c41
+    Z9_// c42
+,// c43a
+      // c43b
+		} options 
+// c45
+
+{ 
+	    // c46
+  _x// c47
+	=// c48
+	""it's""	;  // c50
+}	// c51a
+
+// c51b
+ 
+")).
+Eval vm_compute in ("<<<M975>>>" ++ check (runes_of_ascii "root packet int { uint64 BodyLength  `{ , }` ,} packet uint8x{repeat stringy , }
+root packet /// triple
+zchar { string Pad// trailing space 
+@calculatedFrom( ""it's"" ) `crlf
+line` , }
+/// triple
+// packet A { u8 x, }
+options
+    // c
+    { }root packet Packet{ repeat	a1 `{ , }` ,@calculatedFrom(
+""" ++ [28040; 24687]%N ++ runes_of_ascii """ ) char  calculatedFrom  ,zchar[  00 ] string_ ,
+@calculatedFrom( ""CRC32"" )repeat	char[ 3] o // @lengthOf(
+`// not a comment`
+    , i64 u128	,	i16
+packetx
+@lengthOf(
+falsey
+    ) `` , @leftPad	(
+    '\x00'  )
+    // @lengthOf(
+    float64 // @lengthOf(
+stringy`" ++ [28040; 24687; 31867; 22411]%N ++ runes_of_ascii "` ,
+@tag( 10 )
+// c
+// @lengthOf(
+@calculatedFrom(	""\" ++ [233]%N ++ runes_of_ascii """)	@leftPad ( // `tick` ""quote"" 'q'
+' ' ) i32
+MetaDataX `" ++ [28040; 24687; 31867; 22411]%N ++ runes_of_ascii "` //
+, a1{ match stringy as
+Logon {""\" ++ [233]%N ++ runes_of_ascii """ :  T ,
+    42
+:int	[ ""\" ++ [233]%N ++ runes_of_ascii """// " ++ [27880; 37322]%N ++ runes_of_ascii "
+]
+: Foo ,
+00 : pack ,
+    // @lengthOf(
+    3 :float//	t
+,// c
+""" ++ [128512]%N ++ runes_of_ascii """	:	float// c
+,}
 ,
     } , }
 ")).
-Eval vm_compute in ("<<<M317>>>" ++ check (runes_of_ascii "packet BodyLength
-{
-@calculatedFrom(	""""
-)// c
-char[  42 ]uint8x,} packet  len { uint64 a1  `{ , }`//x
-,}
-")).
-Eval vm_compute in ("<<<M1266>>>" ++ check (runes_of_ascii "packet calculatedFrom { @tag( 4294967296 ) u
-// c
-msg_type , char[ 3 ] crc @lengthOf( len ) `u8 x,` , }")).
-Eval vm_compute in ("<<<M2040>>>" ++ check (runes_of_ascii "
-packet o {  @tag(
-	42
-)
-repeat
-
-x
-{
-	char[0123456789
-        // c
-]
-
-i64_ 
-,	} , }
-options
-
-{  }
-
-")).
-Eval vm_compute in ("<<<M931>>>" ++ check (runes_of_ascii "packet A {
-    Inner {
-        u8 x `
-`,
-        Deep {
-            u8 y `
-`,
-        },
+Eval vm_compute in ("<<<M3789>>>" ++ check (runes_of_ascii "root packet chars {
+    match i64_ as MetaDataX {
+        007 : float,
+        // trailing space 
+        ""a\\"" : leftPad,
+        [255, ""x y"", 4294967296, 0, 3] : Packet,
+        [""" ++ [128512]%N ++ runes_of_ascii """] : body,
+        """ ++ [28040; 24687]%N ++ runes_of_ascii """ : Z9_,
     },
+    @calculatedFrom(""abc"")
+    @rightPad('0')
+    match Z9_ as u128 {
+        255 : Header,
+    },
+    repeat zchar[255] leftPad,
+    @tag(255)
+    u8 zchar `a\`,
+}
+
+packet As {
+    @tag(00)
+    MetaDataX BodyLength,
+    i64 trueish,
+    repeat o {
+        i8 options1 @lengthOf(BodyLength),
+    },
+    @lengthOf(Z9_)
+    @rightPad()
+    @calculatedFrom(""packet"")
+    float @lengthOf(x) `line1
+    line2`,
+}
+
+/// triple
+root packet T {
+    crc `" ++ [233]%N ++ runes_of_ascii "`,
+    match options1 as x {
+        7 : int,
+        """" : calculatedFrom,
+        [""it's""] : packetx,
+        7 : u128,
+    },
+    repeat crc,
 }")).
-Eval vm_compute in ("<<<M1144>>>" ++ check (runes_of_ascii "packet Logon { @tag( 42 ) @rightPad ( // c
-' ' ) @leftPad ( ) repeat trueish { string T , } , }")).
-Eval vm_compute in ("<<<M109>>>" ++ check (runes_of_ascii "root
-    packet lengthOf { @tag(4294967296 ) @calculatedFrom(
-""" ++ [128512]%N ++ runes_of_ascii """)
-    i32
-msg_type `a\`
-, }
+Eval vm_compute in ("<<<M3725>>>" ++ check (runes_of_ascii "root packet metadata {
+    i32 lengthOf @calculatedFrom(""1"") `line1
+    line2`,
+    repeat calculatedFrom int,
+    repeat u rootA,// c
+    @tag(0)
+    // trailing space 
+    repeat matchKey `say ""hi""`,// c
+}
+
+packet metadata {
+    MetaDataX {
+        f64 stringy @lengthOf(metadata) `it's`,
+        //x
+        char[0123456789] repeatCount @calculatedFrom(""`tick`""),
+        repeat zchar[0] x_y_z `say ""hi""`,
+        char i64_,
+    },
+    repeat char[10] trueish,
+    match roots as charz {
+        """ ++ [28040; 24687]%N ++ runes_of_ascii """ : i8i8,
+        [
+            4294967296, 00, 255, ""\n"", ""x y"",
+            10, 0
+        ] : trueish,
+        [""\" ++ [233]%N ++ runes_of_ascii """, 7] : i64_,
+        // packet A { u8 x, }
+        // " ++ [27880; 37322]%N ++ runes_of_ascii "
+        [""\n""] : body,
+        [""""] : asx,
+        [7, 1] : Z9_,
+    },
+    repeat int16 stringy,
+}")).
+Eval vm_compute in ("<<<M539>>>" ++ check (runes_of_ascii "  packet rootA	{ @tag(
+    10 )match packetx // packet A { u8 x, }
+as
+    leftPad
+{
+7 : x //
+,""abc""  : leftPad  ,""x y"" :
+Z9_ // 50% %s
+""""
+    // @lengthOf(
+    : Foo	, }, repeat u64 u ,
+    repeat Packet
+{
+f32
+uint8x ,repeat Packet
+`{ , }`
+,
+repeat int16 chars`doc`// " ++ [128512]%N ++ runes_of_ascii " emoji
+, } ,
+} root packet//
+x { @lengthOf( calculatedFrom
+    // packet A { u8 x, }
+    )char[] falsey @lengthOf(
+    asx
+    ) , match  x_y_z as
+charz
+{
+""\n"" :
+    trueish , ""// no comment"" :u128 , 0123456789 : Pad
+    ,
+} ,
+// trailing space 
+// c
+repeatCount @lengthOf( i8i8
+/// triple
+//x
+) ,  calculatedFrom
+    @calculatedFrom(
+    // c
+    """ ++ [233]%N ++ runes_of_ascii "t" ++ [233]%N ++ runes_of_ascii """),}
+options
+{ body= true ; f32a  = 0123456789 len
+=""{,}"";
+}  options
+    {}
+MetaData
+    //x
+    Logon{ }
 ")).
-Eval vm_compute in ("<<<M1784>>>" ++ check (runes_of_ascii "packet A
-	{
-match
-
-    k  as n{
-
-    [ 
-1
-
-, 
-22
-	, ""c c""
+Eval vm_compute in ("<<<M688>>>" ++ check (runes_of_ascii "packet uint8x { i16 T // c
+`say ""hi""` ,
+@tag( 007 ) zchar[
+//	t
+// packet A { u8 x, }
+42]roots ``
+, match uint8x // packet A { u8 x, }
+as tag { 10 : T/// triple
+,
+007 :int  ,
+    ""\" ++ [233]%N ++ runes_of_ascii """: charz
+    // @lengthOf(
+    [
+255 , ""it's"",
+    255 , //
+7 , ""a\\"" , """ ++ [28040; 24687]%N ++ runes_of_ascii """] :
+Pad [ ""// no comment""
 ]
-    :
-B 2:
-    C  }, 
+    : matchKey
+,} ,
+@rightPad ('\x00'
+)repeat u8x { repeat  i16	x_y_z ,  u8 calculatedFrom , x
+// trailing space 
+// a // b
+u128// c
+,body,} ,	i32	Logon@calculatedFrom(
+    ""`tick`"" )  ,repeat crc,	u ,@calculatedFrom(
+    """")
+float64
+    i8i8 , @tag( 42
+)
+@lengthOf(Z9_ )
+@tag(
+00
+    ) Logon
+// " ++ [27880; 37322]%N ++ runes_of_ascii "
+//x
+metadata , float64 packetx ,} packet int
+{
+    }MetaData	trueish
+{
+    u32 leftPad  , // @lengthOf(
+}
+")).
+Eval vm_compute in ("<<<M632>>>" ++ check (runes_of_ascii "
+packet MetaDataX { @lengthOf( crc // " ++ [128512]%N ++ runes_of_ascii " emoji
+)
+    //
+    match
+    u128 as float{ ""a	b"" :
+Header,[3 ] : zchar ,00 // trailing space 
+: leftPad ,// packet A { u8 x, }
+""" ++ [233]%N ++ runes_of_ascii "t" ++ [233]%N ++ runes_of_ascii """ : repeatCount 42 :  A} // " ++ [128512]%N ++ runes_of_ascii " emoji
+, //	t
+}packet
+options1
+{ match u128 as tag {
+7	: chars
+// a // b
+//	t
+, // " ++ [27880; 37322]%N ++ runes_of_ascii "
+42 : options1,255 :x ,
+255
+:chars , // trailing space 
+[// a // b
+""" ++ [28040; 24687]%N ++ runes_of_ascii """ ]:
+stringy	,	} , char[] stringy @calculatedFrom( ""// no comment"" )
+    ,
+uint16
+string_`crlf
+line`	,
+    // c
+    }
+root packet	trueish{ @lengthOf( matchKey //
+)
+    @lengthOf( T // packet A { u8 x, }
+)
+repeat char[]
+u
+, @lengthOf( A ) zchar[ 00
+    ] chars
+@lengthOf(
+    T ) // " ++ [27880; 37322]%N ++ runes_of_ascii "
+`" ++ [28040; 24687; 31867; 22411]%N ++ runes_of_ascii "`  , }
+")).
+Eval vm_compute in ("<<<M3758>>>" ++ check (runes_of_ascii "options{ a1
+=
+false	; } 
+packet
+tag {@tag(	3
+)i8 chars 
+, }
+	options {
+    Foo
+
+    = // packet A { u8 x, }
+int8 ; }
+
+    packet  // `tick` ""quote"" 'q'
+
+	uint8x  {
+
+float64 i64_
+@calculatedFrom(
+    ""\n""
+	)
+
+    ,
+@rightPad (
+
+    )zchar[  0]
+    string_ , match  // 50% %s
+    	x	/// triple
+    as metadata 
+    // @lengthOf(
+    {
+42	:u128 
+,
+	[ ""`tick`""
+	, 10
+    ]
+:
+    tag
+	""CRC32"" : x
+
+    , ""{,}""	:
+	matchKey ,
+    }
+    ,}
+    packet
+
+roots
+{ 
+@rightPad ( 
+'0'
+)
+uint32 
+u8x 
+@calculatedFrom(// `tick` ""quote"" 'q'
+	""abc"" )
+
+    , 
+match 
+    // `tick` ""quote"" 'q'
+    // c
+	  i8i8  as
+i64_
+    {0	:
+T  ,  } , 
+}")).
+Eval vm_compute in ("<<<M102>>>" ++ check (runes_of_ascii "root packet repeatCount{ // trailing space 
+@lengthOf(
+    /// triple
+    i8i8) char[
+00] u
+    `say ""hi""` ,
+u32
+    metadata ,char[ 10 ]i64_ @lengthOf(
+    Packet )
+,
+repeat
+char[ 0123456789] /// triple
+float ,@calculatedFrom( ""it's""
+) u8 x @calculatedFrom( ""CRC32"" ) ,
+    } packet matchKey{ } packet As { } packet chars
+{// " ++ [128512]%N ++ runes_of_ascii " emoji
+@lengthOf(Packet ) char[]  Header @calculatedFrom( """" ) , Packet Pad
+`say ""hi""` ,MetaDataX @lengthOf(options1 ) , char[ 10	]T//	t
+@calculatedFrom(
+    ""1""
+    //x
+    )
+, // a // b
+@tag(
+0
+) char[ 255 ]
+    // packet A { u8 x, }
+    lengthOf
+    @calculatedFrom( ""a\""b"" ) ,
+}")).
+Eval vm_compute in ("<<<M852>>>" ++ check (runes_of_ascii "packet uint8x { @lengthOf(
+    i64_ ) repeat string T , } packet u128{ stringy Logon `" ++ [233]%N ++ runes_of_ascii "`,@rightPad // trailing space 
+(
+    ' '
+)
+Pad { zchar[ 7]Logon
+    @calculatedFrom(""" ++ [28040; 24687]%N ++ runes_of_ascii """ ), } ,
+match
+rootA
+as
+A{ [ //x
+""CRC32""
+, 4294967296
+,	""packet"",
+""{,}""
+    ] : zchar
+""1""
+: u
+    // " ++ [27880; 37322]%N ++ runes_of_ascii "
+    42 :o """ ++ [28040; 24687]%N ++ runes_of_ascii """
+:lengthOf//
+,
+    }, repeat zchar[
+0123456789 ] BodyLength  ,  @tag( 65535 )@tag( 007)
+//	t
+//x
+@tag( /// triple
+1
+    ) packetx As , } MetaData
+    BodyLength { asx len ,int len
+`tab	here`, int64 MetaDataX
+    `it's` ,_x
+_x  ,
+    string
+stringy`tab	here`// packet A { u8 x, }
+,
+}")).
+Eval vm_compute in ("<<<M1040>>>" ++ check (runes_of_ascii "// @lengthOf(
+MetaData // trailing space 
+o { Z9_
+Logon
+    `// not a comment` , }root packet body {x `100% of %d` , Foo
+{ match a1 as
+    //
+    a1 { 1
+:
+charz
+, 10: trueish , ""abc"" : i8i8 ,
+    ""a\""b"" : int,
+""" ++ [28040; 24687]%N ++ runes_of_ascii """
+    : // `tick` ""quote"" 'q'
+a1
+} , } ,
+match x_y_z as a1
+{	10
+:
+repeatCount, } , match pack
+    // a // b
+    as
+    BodyLength{	""a\\"":
+// trailing space 
+/// triple
+options1 255 :
+    Z9_
+, [ """ ++ [233]%N ++ runes_of_ascii "t" ++ [233]%N ++ runes_of_ascii """ ]
+    : i64_
+,
+// c
+// 50% %s
+""abc"" : u128 ,""abc""  : Z9_  ,}
+, o
+@lengthOf( i64_
+    ) , char[ 007
+]trueish
+    @lengthOf(
+leftPad ), }
+")).
+Eval vm_compute in ("<<<M338>>>" ++ check (runes_of_ascii "
+options{ T  =char[] //x
+; }root packet	repeatCount	{ @lengthOf( BodyLength )
+repeat
+    char[ 3
+    ] Pad`u8 x,` , zchar[42 ] u @lengthOf(	float  ) `doc`, f32 metadata	`" ++ [28040; 24687; 31867; 22411]%N ++ runes_of_ascii "`
+, repeat uint64 matchKey ,
+match i64_ as calculatedFrom {""`tick`"" :i64_ ,}	, @leftPad ( )// c
+u64 MetaDataX	@lengthOf(
+rootA),metadata @calculatedFrom( // 50% %s
+""it's""
+)
+    // c
+    , T{ char[]asx @lengthOf(lengthOf  )
+    ,}
+,
+// `tick` ""quote"" 'q'
+/// triple
+@leftPad ( ) len
+    packetx `say ""hi""` ,
+    // `tick` ""quote"" 'q'
+    } // `tick` ""quote"" 'q'")).
+Eval vm_compute in ("<<<M3506>>>" ++ check (runes_of_ascii "options { // c1
+FixedStringPadChar
+    // c2
+= '0' // c4a
+  // c4b
+; }
+    // c6
+packet Q
+    // c8
+{ // c9a
+  // c9b
+zchar[
+    // c10
+4 ] z
+    // c13
+,
+    // c14
+@rightPad // c15
+( // c16
+'\x00'
+    // c17
+) char[ 3
+    // c20
+] // c21
+n // c22a
+  // c22b
+, // c23a
+  // c23b
+char[ // c24
+5 // c25
+] // c26
+d ,
+    // c28
+} root // c30
+packet R // c32
+{
+    // c33
+Q // c34a
+  // c34b
+, // c35
+zchar[ 8 // c37
+] // c38
+top ,
+    // c40
+repeat
+    // c41
+zchar[ 2 ]
+    // c44
+zs // c45a
+  // c45b
+,
+    // c46
+} // c47
+")).
+Eval vm_compute in ("<<<M496>>>" ++ check (runes_of_ascii "
+packet Logon
+    // c
+    { @lengthOf(  body
+    )repeat i8i8 `two words`
+, repeat
+chars
+Pad,	repeat	a1
+//	t
+//
+{trueish
+    x`
+`
+,
+},
+@lengthOf( Header
+) lengthOf BodyLength `u8 x,` ,	repeat
+char[ 007] packetx , @lengthOf(f32a )
+match crc as
+stringy { [""a	b"" ,"""" ,
+""a	b"" , 1,
+    255] :matchKey ,
+    } , repeat string
+tag ,  @lengthOf( int
+)  @rightPad (	) @lengthOf(
+leftPad
+    )
+    char[]
+    T @lengthOf( int	) `{ , }` ,
+    } packet u8x{ repeat char[] // @lengthOf(
+stringy,
+}
+")).
+Eval vm_compute in ("<<<M3255>>>" ++ check (runes_of_ascii "// top
+MetaData
+    // c0
+body
+    // c1
+{
+    // c2
+}
+    // c3
+root
+    // c4
+packet
+    // c5
+chars
+    // c6
+{
+    // c7
+@lengthOf(
+    // c8
+i64_
+    // c9
+)
+    // c10
+chars
+    // c11
+,
+    // c12
+i8i8
+    // c13
+{
+    // c14
+falsey
+    // c15
+@lengthOf(
+    // c16
+stringy
+    // c17
+)
+    // c18
+``
+    // c19
+,
+    // c20
+}
+    // c21
+,
+    // c22
+x
+    // c23
+@lengthOf(
+    // c24
+A
+    // c25
+)
+    // c26
+`tab	here`
+    // c27
+,
+    // c28
+}
+    // c29
+")).
+Eval vm_compute in ("<<<M577>>>" ++ check (runes_of_ascii "packet As	{
+repeat // trailing space 
+trueish Logon  `crlf
+line`, @lengthOf(
+stringy
+    )  i8i8 // " ++ [128512]%N ++ runes_of_ascii " emoji
+{ u16 MetaDataX `line1
+line2`, string matchKey ,  }
+, @calculatedFrom( // " ++ [27880; 37322]%N ++ runes_of_ascii "
+""it's"" )
+    // " ++ [128512]%N ++ runes_of_ascii " emoji
+    string falsey @calculatedFrom( """" )
+,  char
+    // c
+    zchar
+,repeat	len	calculatedFrom `it's` , @lengthOf( // a // b
+asx  ) f64
+    u128
+,leftPad calculatedFrom //
+`say ""hi""`, }packet packetx { @tag( 42 )  char[ 255 ] len , }
+")).
+Eval vm_compute in ("<<<M3527>>>" ++ check (runes_of_ascii "packet u128 // c1
+{ u8 // c3a
+  // c3b
+a
+    // c4
+, } // c6a
+  // c6b
+root
+    // c7
+packet
+    // c8
+Msg
+    // c9
+{ // c10a
+  // c10b
+u8 k // c12a
+  // c12b
+, u24 { // c15
+u8
+    // c16
+Hi , // c18a
+  // c18b
+u16 // c19
+Lo // c20a
+  // c20b
+, } , // c23
+repeat // c24a
+  // c24b
+i24 { u32 q // c28
+, // c29
+}
+    // c30
+, // c31
+u128 // c32
+, u16 float32x // c35
+, // c36a
+  // c36b
+string s // c38a
+  // c38b
+, // c39
+} // c40
+")).
+Eval vm_compute in ("<<<M128>>>" ++ check (runes_of_ascii "root packet
+Z9_ //	t
+{
+// packet A { u8 x, }
+//x
+x_y_z, // 50% %s
+@calculatedFrom( ""a	b""
+)
+u128 { // a // b
+lengthOf
+    @calculatedFrom(	""// no comment"" ), roots lengthOf, repeat Header Z9_
+    , } , }
+options // @lengthOf(
+{
+    f32a =
+""a\""b""Packet
+    = false // `tick` ""quote"" 'q'
+; Foo =
+false
+    ;}
+options // 50% %s
+{// a // b
+o
+= 10
+    // a // b
+    options1 =
+true Foo
+= """ ++ [28040; 24687]%N ++ runes_of_ascii """  ;x =
+    char[] ; }
+")).
+Eval vm_compute in ("<<<M3703>>>" ++ check (runes_of_ascii "options {
+    packetx = 0
+    metadata = char[0123456789]
+    As = 42;
+    msg_type = '0';
+}
+
+options {
+    body = ""packet"";
+    metadata = false;
+    chars = 42
+    falsey = 42
+}
+
+packet body {
+    @leftPad('\x00')
+    leftPad @lengthOf(repeatCount),
+}
+
+MetaData _x {
+    uint16 lengthOf `100% of %d`,
+    crc T,
+    uint32 Pad `
+        `,
+    u64 msg_type,
+    string_ u128,
+    zchar[4294967296] _x,
+}")).
+Eval vm_compute in ("<<<M4049>>>" ++ check (runes_of_ascii "
+
+  options { Header
+    =
+float32 ;
+    charz=
+	true
+
+    ;
+    falsey  = 
+	// a // b
+
+	// 50% %s
+
+""// no comment""
+
+len
+	= 	 // @lengthOf(
+
+' ' 
+A
+	=	true;
+
+    }packet
+
+    i64_
+
+    {  repeat
+
+string
+	float
+
+`" ++ [233]%N ++ runes_of_ascii "`// a // b
+,f64 T	@lengthOf(chars // packet A { u8 x, }
+    )  `100% of %d` ,  msg_type
+@lengthOf(
+    calculatedFrom
+)
+    `{ , }`  
+  // " ++ [128512]%N ++ runes_of_ascii " emoji
+  // " ++ [27880; 37322]%N ++ runes_of_ascii "
+
+,
 }
 
 ")).
-Eval vm_compute in ("<<<M845>>>" ++ check (runes_of_ascii "packet A {
-  match k as n {
-    [""a"", 22, ""c c"", 4, ""e"", 66, ""g""] : B
-    2 : C
-  },
-}")).
-Eval vm_compute in ("<<<M851>>>" ++ check (runes_of_ascii "packet A {
-  match k as n {
-    [1, 22, 007, 4, 5, 66, 7, 8] : B,
-    2 : C
-  },
-}")).
-Eval vm_compute in ("<<<M1227>>>" ++ check (runes_of_ascii "packet o { @tag( 42 ) repeat x { char[
+Eval vm_compute in ("<<<M202>>>" ++ check (runes_of_ascii "//	t
+options
 // c
-0123456789 ] i64_ , } , } options { }")).
-Eval vm_compute in ("<<<M1381>>>" ++ check (runes_of_ascii "
+// a // b
+{ leftPad
+=	' ' ;
+    // " ++ [27880; 37322]%N ++ runes_of_ascii "
+    len= false ;
+lengthOf =char[ 7 ]  ;// c
+matchKey
+    =' '  ; roots  =false ; }// packet A { u8 x, }
+packet Logon
+{
+} MetaData zchar{ int64// 50% %s
+zchar , char[ 4294967296 ] zchar ,chars Foo `` ,// `tick` ""quote"" 'q'
+zchar[ 0123456789
+    ]rootA	, a1 body ,
+// trailing space 
+//x
+i16 matchKey	`100% of %d`,}
+
+")).
+Eval vm_compute in ("<<<M596>>>" ++ check (runes_of_ascii "
+packet zchar
+{ string uint8x  @calculatedFrom( ""a\\"" ),
+@rightPad (
+    // " ++ [27880; 37322]%N ++ runes_of_ascii "
+    ) match zchar as
+T
+    { 65535
+    : f32a[ ""1"",
+    1
+,
+    007
+]: calculatedFrom , ""\" ++ [233]%N ++ runes_of_ascii """  :
+metadata // a // b
+, 0123456789 : x
+    // 50% %s
+    ,3  :trueish } ,  char[
+42] o@lengthOf(
+_x ) , @lengthOf(	BodyLength
+) @lengthOf( a1 )repeat char[]	Packet `100% of %d`,}
+")).
+Eval vm_compute in ("<<<M4410>>>" ++ check (runes_of_ascii "options {
+    StringPrefixLenType = u32;
+    FixedStringPadFromLeft = false;
+}
+
+packet Logout {
+    f64 Flags,
+    repeat InTail1 {
+        int32 Flags,
+        zchar[1] tag7,
+    },
+    repeat string x,
+}
+
+root packet Trade {
+    repeat f32 Acct,
+    InTail62 {
+        u32 Qty,
+        zchar[1] x,
+    },
+    repeat string Side2,
+    u16 Ref,
+}")).
+Eval vm_compute in ("<<<M736>>>" ++ check (runes_of_ascii "packet falsey{
+    // @lengthOf(
+    @rightPad  (' ')int
+a1 ,@calculatedFrom( ""packet""  )
+@lengthOf(lengthOf
+)
+repeat
+uint64 Logon,
+char[ 3] T`crlf
+line`
+/// triple
+// " ++ [128512]%N ++ runes_of_ascii " emoji
+,
+@rightPad ( )
+@tag(
+    255)
+@lengthOf( BodyLength )repeat char[
+007] asx ,
+    repeat _x Pad `a\` ,int16
+//
+//	t
+asx ``, char uint8x
+    `doc` ,}")).
+Eval vm_compute in ("<<<M394>>>" ++ check (runes_of_ascii "packet float { zchar[ 3] crc,
+repeat zchar[ 10 ]
+// trailing space 
+//x
+options1, repeat
+Foo T , // " ++ [27880; 37322]%N ++ runes_of_ascii "
+@calculatedFrom(
+    ""CRC32"" ) @calculatedFrom( """ ++ [233]%N ++ runes_of_ascii "t" ++ [233]%N ++ runes_of_ascii """)
+@tag(4294967296)  repeat uint8x _x ,
+@rightPad ( ) string
+    // trailing space 
+    rootA ,zchar[ // trailing space 
+255
+]lengthOf	@lengthOf( falsey
+) ,}")).
+Eval vm_compute in ("<<<M3798>>>" ++ check (runes_of_ascii "MetaData lengthOf {
+    i16 asx,
+    msg_type rootA `it's`,
+}
+
+root packet packetx {
+    @tag(1)
+    uint32 options1 @calculatedFrom(""" ++ [28040; 24687]%N ++ runes_of_ascii """),
+    @tag(10)
+    lengthOf stringy `" ++ [28040; 24687; 31867; 22411]%N ++ runes_of_ascii "`,
+    u16 x_y_z `100% of %d`,
+    /// triple
+    char[] Foo,
+}
+
+options {
+    x = '0'
+    lengthOf = ' '
+    i64_ = uint8
+}")).
+Eval vm_compute in ("<<<M825>>>" ++ check (runes_of_ascii "// trailing space 
+root packet Z9_{ u8x
+    , match
+// trailing space 
+// c
+crc
+// " ++ [128512]%N ++ runes_of_ascii " emoji
+// a // b
+as T
+//	t
+// 50% %s
+{
+    [
+""a	b""
+,007 ] :	leftPad, 7:
+stringy
+    ,} ,@leftPad(
+    '0'	) @lengthOf(
+    trueish) packetx trueish `" ++ [233]%N ++ runes_of_ascii "`
+, }
+packet msg_type	{
+    char[ 0 ]repeatCount , } 	 ")).
+Eval vm_compute in ("<<<M603>>>" ++ check (runes_of_ascii "
+options { u128 = u32 ;Z9_
+=""`tick`"" trueish= ""`tick`"" ;
+    // @lengthOf(
+    tag
+    = '0'
+} options
+    { metadata = ""a	b"" ;
+packetx =//	t
+'\x00' // " ++ [128512]%N ++ runes_of_ascii " emoji
+} options {charz
+    = 65535}
+options {
+    msg_type // trailing space 
+=zchar[
+10 ] ;
+    asx	= false
+    tag
+= char[] ;
+}")).
+Eval vm_compute in ("<<<M349>>>" ++ check (runes_of_ascii "packet  chars	{
+    string_ {  repeat
+    zchar { match u128 as A
+// `tick` ""quote"" 'q'
+//
+{42 :pack
+    ,
+} ,// " ++ [27880; 37322]%N ++ runes_of_ascii "
+int64 u128 // trailing space 
+, repeatCount `it's` ,
+    a1 Z9_
+//
+// trailing space 
+,
+// packet A { u8 x, }
+/// triple
+} ,
+matchKey @calculatedFrom(	""1""
+) ,} ,	}
+")).
+Eval vm_compute in ("<<<M2042>>>" ++ check (runes_of_ascii "packet	packetx { // trailing space 
+x_y_z
+{
+string
+charz ,
+string x// @lengthOf(
+`two words`
+    ,  u8x { // `tick` ""quote"" 'q'
+charz `100% of %d` // packet A { u8 x, }
+,}// " ++ [27880; 37322]%N ++ runes_of_ascii "
+,} , }
+    // a // b
+    packet metadata {  @leftPad ( '0'< ) repeat i32 options1 ,u64 uint8x , }
+")).
+Eval vm_compute in ("<<<M1943>>>" ++ check (runes_of_ascii "packet	packetx { // trailing space 
+x_y_z
+{
+string
+charz ,
+string x// @lengthOf(
+`two words`
+    ,  u8x { // `tick` ""quote"" 'q'
+charz `100% of %d` // packet A { u8 x, }
+,}// " ++ [27880; 37322]%N ++ runes_of_ascii "
+,, } }
+    // a // b
+    packet metadata {  @leftPad ( '0') repeat i32 options1 ,u64 uint8x , }
+")).
+Eval vm_compute in ("<<<M1941>>>" ++ check (runes_of_ascii "packet	packetx { // trailing space 
+x_y_z
+{
+string
+charz ,
+string x// @lengthOf(
+`two words`
+    ,  u8x { // `tick` ""quote"" 'q'
+charz `100% of %d` // packet A { u8 x, }
+,}// " ++ [27880; 37322]%N ++ runes_of_ascii "
+, , }
+    // a // b
+    packet metadata {  @leftPad ( '0') repeat i32 options1 ,u64 uint8x , }
+")).
+Eval vm_compute in ("<<<M900>>>" ++ check (runes_of_ascii "packet BodyLength{ i8 asx `100% of %d`
+    ,	repeat len { f64	o//x
+@lengthOf( Z9_ ) `a\` , float64
+    tag,} , @leftPad(
+    '\x00' ) zchar,
+    i32
+Z9_ , @tag( 0) char[ 0	]
+_x
+    `
+`, chars `doc`, @rightPad // `tick` ""quote"" 'q'
+( '\x00') zchar[  7 ] u8x
+,f32
+    f32a, }")).
+Eval vm_compute in ("<<<M1961>>>" ++ check (runes_of_ascii "packet	packetx { // trailing space 
+x_y_z
+{
+string
+charz ,
+string x// @lengthOf(
+`two words`
+    ,  u8x { // `tick` ""quote"" 'q'
+charz `100% of %d` // packet A { u8 x, }
+,}// " ++ [27880; 37322]%N ++ runes_of_ascii "
+,} , }
+    // a // b
+    packet  {  @leftPad ( '0') repeat i32 options1 ,u64 uint8x , }
+")).
+Eval vm_compute in ("<<<M2020>>>" ++ check (runes_of_ascii "packet	packetx { // trailing space 
+x_y_z
+{
+string
+charz ,
+string x// @lengthOf(
+`two words`
+    ,  u8x { // `tick` ""quote"" 'q'
+charz `100% of %d` // packet A { u8 x, }
+,}// " ++ [27880; 37322]%N ++ runes_of_ascii "
+,} , }
+    // a // b
+    packet metadata {  @leftPad ( '0') repeat i32 options1 ,u64")).
+Eval vm_compute in ("<<<M65>>>" ++ check (runes_of_ascii "packet i64_ {
+    match stringy as
+    body { ""\n""
+:
+rootA  , ""\" ++ [233]%N ++ runes_of_ascii """ : zchar 3:A
+[ """ ++ [128512]%N ++ runes_of_ascii """
+, 1	,
+""" ++ [233]%N ++ runes_of_ascii "t" ++ [233]%N ++ runes_of_ascii """ ,
+255
+    , 0123456789
+, 007
+] : pack
+    , 3 // trailing space 
+: tag,
+[
+""" ++ [128512]%N ++ runes_of_ascii """ , 1 // " ++ [128512]%N ++ runes_of_ascii " emoji
+,
+""a	b"" , ""packet"" ,""a\\"" ,""" ++ [28040; 24687]%N ++ runes_of_ascii """
+    ,
+10 ] :
+    lengthOf
+,}
+, }
+")).
+Eval vm_compute in ("<<<M3811>>>" ++ check (runes_of_ascii "packet a1 {
+    match Pad as As {
+        ""abc"" : falsey,
+        00 : _x,
+        [""" ++ [28040; 24687]%N ++ runes_of_ascii """, 255] : Packet,
+    },
+    Z9_ {
+        int16 x @calculatedFrom(""1""),
+        string asx,
+        repeat options1 `two words`,
+    },
+    Pad `100% of %d`,
+    x `" ++ [28040; 24687; 31867; 22411]%N ++ runes_of_ascii "`,
+}")).
+Eval vm_compute in ("<<<M2141>>>" ++ check (runes_of_ascii "packet// packet A { u8 x, }
+repeatCount	{// packet A { u8 x, }
+@leftPad ( '\x00'
+) repeat u8x MetaDataX `crlf
+line`,
+    repeat
+    char[] MetaDataX
+    ,
+u64	uint8x""a\""b""@calculatedFrom(
+// c
+// packet A { u8 x, }
+) `tab	here`
+,//
+}MetaData pack
+    {
+    }
+")).
+Eval vm_compute in ("<<<M2089>>>" ++ check (runes_of_ascii "packet// packet A { u8 x, }
+repeatCount	{// packet A { u8 x, }
+@leftPad ( '\x00'
+) repeat  MetaDataX `crlf
+line`,
+    repeat
+    char[] MetaDataX
+    ,
+u64	uint8x@calculatedFrom(""a\""b""
+// c
+// packet A { u8 x, }
+) `tab	here`
+,//
+}MetaData pack
+    {
+    }
+")).
+Eval vm_compute in ("<<<M1029>>>" ++ check (runes_of_ascii "// trailing space 
+options { trueish =
+// `tick` ""quote"" 'q'
+// packet A { u8 x, }
+""it's"";	MetaDataX
+// packet A { u8 x, }
+// " ++ [27880; 37322]%N ++ runes_of_ascii "
+=
+// trailing space 
+// trailing space 
+""// no comment"" ;_x =
+//x
+//x
+false A // " ++ [27880; 37322]%N ++ runes_of_ascii "
+= ""a	b""; MetaDataX=
+    0123456789 }
+//
+")).
+Eval vm_compute in ("<<<M2119>>>" ++ check (runes_of_ascii "packet// packet A { u8 x, }
+repeatCount	{// packet A { u8 x, }
+@leftPad ( '\x00'
+) repeat u8x MetaDataX `crlf
+line`,
+    repeat
+    char[] 
+    ,
+u64	uint8x@calculatedFrom(""a\""b""
+// c
+// packet A { u8 x, }
+) `tab	here`
+,//
+}MetaData pack
+    {
+    }
+")).
+Eval vm_compute in ("<<<M1623>>>" ++ check (runes_of_ascii "packet calculatedFrom
+{ @calculatedFrom( ""a\\"" ) zchar[ 4294967296 " ++ [0]%N ++ runes_of_ascii " ]
+calculatedFrom@lengthOf( pack )	`100% of %d` ,char[]body@calculatedFrom( ""// no comment"" )  ,
+@tag( 007) //x
+int8
+leftPad`it's` , repeat pack
+    { repeat char[ 3] body
+,},
+}")).
+Eval vm_compute in ("<<<M1420>>>" ++ check (runes_of_ascii "packet {
+calculatedFrom @calculatedFrom( ""a\\"" ) zchar[ 4294967296 ]
+calculatedFrom@lengthOf( pack )	`100% of %d` ,char[]body@calculatedFrom( ""// no comment"" )  ,
+@tag( 007) //x
+int8
+leftPad`it's` , repeat pack
+    { repeat char[ 3] body
+,},
+}")).
+Eval vm_compute in ("<<<M1590>>>" ++ check (runes_of_ascii "packet calculatedFrom
+{ @calculatedFrom( ""a\\"" ) zchar[ 4294967296 ]
+calculatedFrom@lengthOf( pack )	`100% of %d` ,char[]body@calculatedFrom( ""// no comment"" )  ,
+@tag( 007) //x
+int8
+leftPad`it's` , repeat pack
+    { repeat char[ 3] ,
+body},
+}")).
+Eval vm_compute in ("<<<M3447>>>" ++ check (runes_of_ascii "// top
+packet // c0
+Inner // c1
+{
+    // c2
+u8
+    // c3
+a // c4
+, }
+    // c6
+root
+    // c7
+packet P // c9a
+  // c9b
+{ // c10
+repeat // c11a
+  // c11b
+Inner
+    // c12
+items
+    // c13
+, u8
+    // c15
+x // c16a
+  // c16b
+, // c17a
+  // c17b
+} ")).
+Eval vm_compute in ("<<<M4185>>>" ++ check (runes_of_ascii "// a // b
+
+root 
+packet
+packetx {
+	string
+	matchKey 
+, tag chars
+`u8 x,`
+    ,  }  MetaData
+	Foo{stringy
+	len
+
+,	// @lengthOf(
+  	float32 matchKey
+
+    ,
+	int64 lengthOf	,  }MetaData 
+i8i8
+    {	char[ 10 
+]
+body,
+	}  // `tick` ""quote"" 'q'")).
+Eval vm_compute in ("<<<M2173>>>" ++ check (runes_of_ascii "packet// packet A { u8 x, }
+repeatCount	{// packet A { u8 x, }
+@leftPad ( '\x00'
+) repeat u8x MetaDataX `crlf
+line`,
+    repeat
+    char[] MetaDataX
+    ,
+u64	uint8x@calculatedFrom(""a\""b""
+// c
+// packet A { u8 x, }
+) `tab	here`
+,//
+}")).
+Eval vm_compute in ("<<<M792>>>" ++ check (runes_of_ascii "root packet trueish {
+}
+packet  pack{
+    char[]
+    string_
+, }MetaData Logon	{ uint8 body `u8 x,` ,// @lengthOf(
+char[
+00
+]matchKey `// not a comment` , i8i8 Z9_	, packetx MetaDataX
+, f64	crc `" ++ [233]%N ++ runes_of_ascii "`
+,
+    } options {
+    }
+")).
+Eval vm_compute in ("<<<M1965>>>" ++ check (runes_of_ascii "packet	packetx { // trailing space 
+x_y_z
+{
+string
+charz ,
+string x// @lengthOf(
+`two words`
+    ,  u8x { // `tick` ""quote"" 'q'
+charz `100% of %d` // packet A { u8 x, }
+,}// " ++ [27880; 37322]%N ++ runes_of_ascii "
+,} , }
+    // a // b
+    packet")).
+Eval vm_compute in ("<<<M1169>>>" ++ check (runes_of_ascii "packet len // c
+{
+MetaDataX
+    ,
+    repeat  string_ { int body ,
+uint8 chars	,} , repeat// trailing space 
+string roots`100% of %d` , } options
+{
+    } root packet u128 // " ++ [27880; 37322]%N ++ runes_of_ascii "
+{ float32 msg_type
+    ,}")).
+Eval vm_compute in ("<<<M4140>>>" ++ check (runes_of_ascii "
+// packet A { u8 x, }
+    options {float	= i8 ;int
+
+=uint16 BodyLength=
+    '\x00';chars=
+	false
+}
+packet
+	msg_type {
+    } //	t
+    options {
+
+    BodyLength	= false 
+Pad
+
+    =string }
+
+")).
+Eval vm_compute in ("<<<M3668>>>" ++ check (runes_of_ascii "options {
+    i8i8 = true
+}
+
+packet Header {
+    @lengthOf(f32a)
+    // 50% %s
+    string Header `
+    `,
+}
+
+root packet calculatedFrom {
+    @rightPad()
+    repeat matchKey string_,
+}//	t")).
+Eval vm_compute in ("<<<M1225>>>" ++ check (runes_of_ascii "packet
+    MetaDataX
+{
+    @lengthOf(	x_y_z) @calculatedFrom(	""`tick`"" )
+@tag(255	) // 50% %s
+u8 // packet A { u8 x, }
+i64_@lengthOf( falsey //	t
+) `" ++ [28040; 24687; 31867; 22411]%N ++ runes_of_ascii "`, }
+// packet A { u8 x, }
+")).
+Eval vm_compute in ("<<<M3941>>>" ++ check (runes_of_ascii "
+
+  options
+{
+    // trailing space 
+  // `tick` ""quote"" 'q'
+
+u128 = false;
+
+    Pad
+=
+    false
+	; BodyLength	=char[] 
+body=  true
+
+u=
+    ' '  }  // packet A { u8 x, }
+ 
+")).
+Eval vm_compute in ("<<<M3827>>>" ++ check (runes_of_ascii "MetaData 
+    // packet A { u8 x, }
+
+  // " ++ [27880; 37322]%N ++ runes_of_ascii "
+msg_type{float32
+
+u128`
+`
+
+,	u8x
+u8x
+	, x uint8x,  o
+
+    Pad// " ++ [27880; 37322]%N ++ runes_of_ascii "
+		``
+,
+    falsey MetaDataX
+	`100% of %d`
+
+,	}
+")).
+Eval vm_compute in ("<<<M4439>>>" ++ check (runes_of_ascii "  packet
+
+falsey {  repeat
+
+leftPad
+    { repeat i64_	// " ++ [128512]%N ++ runes_of_ascii " emoji
+
+	pack	`// not a comment`
+
+    // packet A { u8 x, }
+    ,
+
+    } 
+
+// " ++ [128512]%N ++ runes_of_ascii " emoji
+  // " ++ [27880; 37322]%N ++ runes_of_ascii "
+  	,	}
+")).
+Eval vm_compute in ("<<<M2404>>>" ++ check (runes_of_ascii "
+packet MetaDataX
+{
+    @leftPad
+( // a // b
+'0'
+) i8 i8 u @lengthOf(
+MetaDataX
+    ) `say ""hi""` ,	} MetaData BodyLength {
+    asx
+x_y_z `" ++ [233]%N ++ runes_of_ascii "`
+, uint64 u128 , }
+")).
+Eval vm_compute in ("<<<M4522>>>" ++ check (runes_of_ascii "// " ++ [27880; 37322]%N ++ runes_of_ascii "
+root packet i8i8 {
+    Foo @calculatedFrom(""a\\"") `" ++ [28040; 24687; 31867; 22411]%N ++ runes_of_ascii "`,
+}
+
+packet BodyLength {
+    @calculatedFrom(""" ++ [28040; 24687]%N ++ runes_of_ascii """)
+    @rightPad()
+    @tag(42)
+    len `it's`,
+}")).
+Eval vm_compute in ("<<<M2366>>>" ++ check (runes_of_ascii "
+packet MetaDataX
+{
+    @leftPad
+( // a // b
+'0'
+) i8 u @lengthOf(
+)
+    MetaDataX `say ""hi""` ,	} MetaData BodyLength {
+    asx
+x_y_z `" ++ [233]%N ++ runes_of_ascii "`
+, uint64 u128 , }
+")).
+Eval vm_compute in ("<<<M1778>>>" ++ check (runes_of_ascii "options { } packet Packet{char[] i64_ ,
+@tag(
+    255) match
+crc as i8i8{""{,}"" : trueish """" : Pad , ""a\\"" :
+Foo ,
+    1 : :packetx
+, """ ++ [128512]%N ++ runes_of_ascii """ : trueish , } , }")).
+Eval vm_compute in ("<<<M1689>>>" ++ check (runes_of_ascii "options { } packet Packet{char[] i64_ ,
+@tag(
+    255 match )
+crc as i8i8{""{,}"" : trueish """" : Pad , ""a\\"" :
+Foo ,
+    1 :packetx
+, """ ++ [128512]%N ++ runes_of_ascii """ : trueish , } , }")).
+Eval vm_compute in ("<<<M1709>>>" ++ check (runes_of_ascii "options { } packet Packet{char[] i64_ ,
+@tag(
+    255) match
+crc as {i8i8""{,}"" : trueish """" : Pad , ""a\\"" :
+Foo ,
+    1 :packetx
+, """ ++ [128512]%N ++ runes_of_ascii """ : trueish , } , }")).
+Eval vm_compute in ("<<<M4425>>>" ++ check (runes_of_ascii "MetaData MetaDataX {
+    tag Pad `{ , }`,
+    zchar[255] stringy `crlf
+    line`,
+    string packetx `crlf
+    line`,
+    i32 o,
+    char[1] uint8x,//
+}")).
+Eval vm_compute in ("<<<M4018>>>" ++ check (runes_of_ascii "MetaData 
+metadata{  }
+
+MetaData
+rootA 
+{ i8
+	i64_,
+
+    roots options1
+
+    `a\`
+, 
+lengthOf Header
+
+,
+	Z9_
+Foo  ,  int16
+	BodyLength
+, } 
+// c
+ 
+")).
+Eval vm_compute in ("<<<M2362>>>" ++ check (runes_of_ascii "
+packet MetaDataX
+{
+    @leftPad
+( // a // b
+'0'
+) i8 u @lengthOf(
+MetaDataX
+    ) `say ""hi""` ,	} MetaData BodyLength {
+    asx
+x_y_z `" ++ [233]%N ++ runes_of_ascii "`
+,  u128 , }
+")).
+Eval vm_compute in ("<<<M1652>>>" ++ check (runes_of_ascii "options { } packet {char[] i64_ ,
+@tag(
+    255) match
+crc as i8i8{""{,}"" : trueish """" : Pad , ""a\\"" :
+Foo ,
+    1 :packetx
+, """ ++ [128512]%N ++ runes_of_ascii """ : trueish , } , }")).
+Eval vm_compute in ("<<<M4255>>>" ++ check (runes_of_ascii "packet A {
+    match k as n {
+        [
+            ""a"", ""bb"", ""c c"", ""d"", ""e"",
+            ""f"", ""g"", ""h""
+        ] : B,
+        2 : C,
+    },
+}")).
+Eval vm_compute in ("<<<M3454>>>" ++ check (runes_of_ascii "  packet  B{ u8
+
+a
+    ,  } root
+
+packet
+
+    P {
+
+u8	K	,
+
+u8	L  @lengthOf( Body
+)
+,
+
+    match
+	K as
+    Body  {
+	1
+    : B 
+,} ,}
+")).
+Eval vm_compute in ("<<<M4373>>>" ++ check (runes_of_ascii "
+
+  MetaData
+matchKey {o 
+Logon
+	,
+
+    T 
+i64_
+
+    , 
+float  u ,
+	MetaDataX	lengthOf	`
+` 
+
+//	t
+	,
+i16
+
+o
+, a1	chars
+
+    ,} ")).
+Eval vm_compute in ("<<<M4215>>>" ++ check (runes_of_ascii "
+packet
+	As
+{ @lengthOf(crc	) 
+
+    // " ++ [128512]%N ++ runes_of_ascii " emoji
+	char[
+	4294967296
+    ]// trailing space 
+    u8x  `// not a comment`
+
+    ,
+}
+")).
+Eval vm_compute in ("<<<M4008>>>" ++ check (runes_of_ascii "
+packet tag {
+
+    repeat
+char[4294967296 
+        // 50% %s
+    ]zchar
+
+    `` ,
+
+    repeat 
+i8i8 
+_x  ,} // a // b
+ 
+")).
+Eval vm_compute in ("<<<M3282>>>" ++ check (runes_of_ascii "MetaData metadata { } MetaData rootA { i8 i64_ , roots // c
+options1 `a\` , lengthOf Header , Z9_ Foo , int16 BodyLength , }")).
+Eval vm_compute in ("<<<M4532>>>" ++ check (runes_of_ascii "
+options	{ lengthOf// 50% %s
+	= true	int  //
+  =// c
+
+	""1""
+	;
+string_  = 
+
+    //x
+
+  false
+;  //
+msg_type
+    = 
+""CRC32""}")).
+Eval vm_compute in ("<<<M3778>>>" ++ check (runes_of_ascii "MetaData zchar {
+    _x charz `crlf
+        line`,
+    packetx Foo `crlf
+        line`,
+    char[] A `
+        `,
+}")).
+Eval vm_compute in ("<<<M143>>>" ++ check (runes_of_ascii "options
+    {
+// `tick` ""quote"" 'q'
+/// triple
+x// " ++ [128512]%N ++ runes_of_ascii " emoji
+=  '\x00';asx = char[ 42 // 50% %s
+]
+}
+// @lengthOf(
+")).
+Eval vm_compute in ("<<<M3321>>>" ++ check (runes_of_ascii "MetaData float
+// c
+{ uint8 BodyLength , } MetaData charz { float32 trueish `a\` , i16 metadata `say ""hi""` , }")).
+Eval vm_compute in ("<<<M3353>>>" ++ check (runes_of_ascii "MetaData float { uint8 BodyLength , } MetaData charz { float32 trueish `a\` , i16 metadata `say ""hi""` ,
+// c
+}")).
+Eval vm_compute in ("<<<M4272>>>" ++ check (runes_of_ascii "  MetaData
+options1
+{	len
+
+    chars  // c
+	`crlf
+line` , charz  Logon	// trailing space 
+    `
+` , }")).
+Eval vm_compute in ("<<<M4003>>>" ++ check (runes_of_ascii "packet matchKey {
+}
+
+packet int {
+}
+
+MetaData As {
+    int16 metadata `100% of %d`,
+}// trailing space ")).
+Eval vm_compute in ("<<<M3667>>>" ++ check (runes_of_ascii "options {
+}
+
+MetaData asx {
+    float64 x_y_z,
+}
+
+options {
+    stringy = '0';// packet A { u8 x, }
+}")).
+Eval vm_compute in ("<<<M2982>>>" ++ check (runes_of_ascii "packet A {
+  match k as n {
+    [""a"", ""bb"", 007, ""d"", ""e"", 66, ""g"", ""h"", 9] : B,
+    2 : C
+  },
+}")).
+Eval vm_compute in ("<<<M2978>>>" ++ check (runes_of_ascii "packet A {
+  match k as n {
+    [""a"", 22, ""c c"", 4, ""e"", 66, ""g"", 8, ""i""] : B,
+    2 : C
+  },
+}")).
+Eval vm_compute in ("<<<M4101>>>" ++ check (runes_of_ascii "MetaData M {
+    u8 x `a
+            b
+          c`,
+    T t `a
+            b
+          c`,
+}")).
+Eval vm_compute in ("<<<M2265>>>" ++ check (runes_of_ascii "MetaData _x {string x `// not a comment` , string
+i64_ // trailing space 
+`a\` ,
+    } }
+")).
+Eval vm_compute in ("<<<M2985>>>" ++ check (runes_of_ascii "packet A {
+  match k as n {
+    [1, 22, 007, 4, 5, 66, 7, 8, 9, 10] : B,
+    2 : C
+  },
+}")).
+Eval vm_compute in ("<<<M2259>>>" ++ check (runes_of_ascii "MetaData _x {string x `// not a comment` , string
+i64_ // trailing space 
+`a\` 
+    }
+")).
+Eval vm_compute in ("<<<M3663>>>" ++ check (runes_of_ascii "options {
+    LittleEndian = true;
+}
+
+root packet P {
+    repeat char cs,
+    u8 x,
+}")).
+Eval vm_compute in ("<<<M4381>>>" ++ check (runes_of_ascii "  packet
+
+Inner{  u8 a	,
+
+} root
+packet 
+P
+
+{
+    repeat
+Inner  items,u8
+x
+	,
+}
+")).
+Eval vm_compute in ("<<<M4144>>>" ++ check (runes_of_ascii "
 
   root 
 packet
-    P	{ u8 s_u8
+leftPad 	 /// triple
 
-, 
-repeat
+  {}
+options 
+{ msg_type
 
-    u8 r_u8 ,	u16 b_len
-    ,  } ")).
-Eval vm_compute in ("<<<M2032>>>" ++ check (runes_of_ascii "  packet
-
-string_  // `tick` ""quote"" 'q'
-  	{  u 
-    //
-	// " ++ [128512]%N ++ runes_of_ascii " emoji
-		, 
-}")).
-Eval vm_compute in ("<<<M237>>>" ++ check (runes_of_ascii "// " ++ [128512]%N ++ runes_of_ascii " emoji
-packet	roots
-    // trailing space 
-    {
-    } // @lengthOf(")).
-Eval vm_compute in ("<<<M1309>>>" ++ check (runes_of_ascii "MetaData // c
-_x { zchar[ 4294967296 ] lengthOf `// not a comment` , }")).
-Eval vm_compute in ("<<<M1528>>>" ++ check (runes_of_ascii "MetaData
-
-    zchar
-
-{
-	zchar[ 3
-]  Pad
-
-    ,  }
-        // c
-")).
-Eval vm_compute in ("<<<M1180>>>" ++ check (runes_of_ascii "// top
-options // c0
-{ // c1
-u8x // c2
-= // c3
-3 // c4
-} // c5
-")).
-Eval vm_compute in ("<<<M1088>>>" ++ check (runes_of_ascii "packet A { // a
- @tag(1) u8 x, // b
- // c
- @tag(2) u8 y, }")).
-Eval vm_compute in ("<<<M610>>>" ++ check (runes_of_ascii "MetaData
-    // trailing space 
-    matchKey
-{ u64")).
-Eval vm_compute in ("<<<M641>>>" ++ check (runes_of_ascii "MetaData
-    // trailing space 
-    matchK")).
-Eval vm_compute in ("<<<M1119>>>" ++ check (runes_of_ascii "MetaData zchar { zchar[ 3 ] Pad ,
-// c
-}")).
-Eval vm_compute in ("<<<M750>>>" ++ check (runes_of_ascii "@rightPad float64 char[ = char root")).
-Eval vm_compute in ("<<<M2006>>>" ++ check (runes_of_ascii "MetaData M {
-}// c
-
-packet A {
-}")).
-Eval vm_compute in ("<<<M1778>>>" ++ check (runes_of_ascii "
-// c
-		options{
-u8x 
 =
-	3}
+    """ ++ [233]%N ++ runes_of_ascii "t" ++ [233]%N ++ runes_of_ascii """ }
+")).
+Eval vm_compute in ("<<<M3023>>>" ++ check (runes_of_ascii "packet A { Inner { match k as n { [1,22,007,4,5,66,7,8,9,10,11,12] : B, }, }, }")).
+Eval vm_compute in ("<<<M687>>>" ++ check (runes_of_ascii "MetaData
+    matchKey{ }  options{ }
+    //
+    packet repeatCount
+{
+    }
+")).
+Eval vm_compute in ("<<<M3386>>>" ++ check (runes_of_ascii "MetaData _x { f64 charz `tab	here` , } options { BodyLength = // c
+""" ++ [233]%N ++ runes_of_ascii "t" ++ [233]%N ++ runes_of_ascii """ ; }")).
+Eval vm_compute in ("<<<M2078>>>" ++ check (runes_of_ascii "packet// packet A { u8 x, }
+repeatCount	{// packet A { u8 x, }
+@leftPad (")).
+Eval vm_compute in ("<<<M755>>>" ++ check (runes_of_ascii "MetaData len
+// c
+/// triple
+{char[
+7
+    ] lengthOf	`100% of %d` , }
+")).
+Eval vm_compute in ("<<<M3215>>>" ++ check (runes_of_ascii "packet A { match k as n { [ // a
+ 1 // b
+ , // c
+ 2 ] // d
+ : B }, }")).
+Eval vm_compute in ("<<<M544>>>" ++ check (runes_of_ascii "packet msg_type{ @lengthOf( asx
+    )@leftPad ( '0'
+) repeat _x , }")).
+Eval vm_compute in ("<<<M3768>>>" ++ check (runes_of_ascii "
+
+  MetaData zchar 
+{
+zchar[
+
+    3
+
+]
+    // c
+      Pad
+,  } ")).
+Eval vm_compute in ("<<<M2889>>>" ++ check (runes_of_ascii "packet A {
+  match k as n {
+    [1, ""bb""] : B,
+    2 : C
+  },
+}")).
+Eval vm_compute in ("<<<M1316>>>" ++ check (runes_of_ascii "MetaData
+lengthOf
+    {// packet A { u8 x, }
+}  options { }")).
+Eval vm_compute in ("<<<M117>>>" ++ check (runes_of_ascii "
+packet x_y_z { string charz
+// trailing space 
+// " ++ [27880; 37322]%N ++ runes_of_ascii "
+, }")).
+Eval vm_compute in ("<<<M3451>>>" ++ check (runes_of_ascii "
+root packet	P
+{hdr
+{
+u8
+	a
+
+    ,
+
+    }
+,u8 x , }")).
+Eval vm_compute in ("<<<M4299>>>" ++ check (runes_of_ascii "
+packet 
+trueish
+
+    { 
+}
+options
+	{ _x
+= true;}")).
+Eval vm_compute in ("<<<M2319>>>" ++ check (runes_of_ascii "
+MetaData Pad{
+u32 rootA `line1
+line2` , ,
+    }
+")).
+Eval vm_compute in ("<<<M2802>>>" ++ check (runes_of_ascii "char int16 char[] @tag( MetaData false ) as uint8")).
+Eval vm_compute in ("<<<M2871>>>" ++ check (runes_of_ascii "@tag( msg_type ; repeat { ' ' i8 false repeat =")).
+Eval vm_compute in ("<<<M3905>>>" ++ check (runes_of_ascii "packet MetaDataX {
+    uint32 A `say ""hi""`,
+}")).
+Eval vm_compute in ("<<<M4002>>>" ++ check (runes_of_ascii "  options
+{
+    asx =
+
+    u8;
+
+    }
 
 ")).
-Eval vm_compute in ("<<<M1195>>>" ++ check (runes_of_ascii "options { u8x = 3 } // c
-")).
-Eval vm_compute in ("<<<M1897>>>" ++ check (runes_of_ascii "options {
-    u8x = 3
-}")).
-Eval vm_compute in ("<<<M690>>>" ++ check (runes_of_ascii "// c
-packet i64_ {")).
-Eval vm_compute in ("<<<M1050>>>" ++ check (runes_of_ascii "packet A {
+Eval vm_compute in ("<<<M75>>>" ++ check (runes_of_ascii "packet len
+    {repeat lengthOf `a\` , }")).
+Eval vm_compute in ("<<<M2063>>>" ++ check (runes_of_ascii "packet// packet A { u8 x, }
+repeatCount")).
+Eval vm_compute in ("<<<M2627>>>" ++ check (runes_of_ascii "packet A { match k as n { [] : B }, }")).
+Eval vm_compute in ("<<<M467>>>" ++ check (runes_of_ascii "root packet i8i8 {i64
+options1 ,
 }
-// c" ++ [65279]%N)).
-Eval vm_compute in ("<<<M128>>>" ++ check (runes_of_ascii "packet i8i8
+")).
+Eval vm_compute in ("<<<M2795>>>" ++ check (runes_of_ascii "i64 u16 = , ( i64 root { 007 ""{,}""")).
+Eval vm_compute in ("<<<M910>>>" ++ check (runes_of_ascii "MetaData Pad{  } options
+    { }")).
+Eval vm_compute in ("<<<M3106>>>" ++ check (runes_of_ascii "packet A {
+ u8 x `d `, // c 
+}")).
+Eval vm_compute in ("<<<M4220>>>" ++ check (runes_of_ascii "
+
+  packet
+A
+{
+    x  ,
+} ")).
+Eval vm_compute in ("<<<M3999>>>" ++ check (runes_of_ascii "packet A {
+    char[3] x,
+}")).
+Eval vm_compute in ("<<<M2598>>>" ++ check (runes_of_ascii "packet A { char[ x ] y, }")).
+Eval vm_compute in ("<<<M70>>>" ++ check (runes_of_ascii "
+packet BodyLength { }
+")).
+Eval vm_compute in ("<<<M1427>>>" ++ check (runes_of_ascii "packet calculatedFrom")).
+Eval vm_compute in ("<<<M557>>>" ++ check (runes_of_ascii "MetaData
+    x
 {}
 ")).
-Eval vm_compute in ("<<<M1767>>>" ++ check (runes_of_ascii "
-// c
+Eval vm_compute in ("<<<M2733>>>" ++ check (runes_of_ascii "3G&lk0;kvRjS8i9uAP")).
+Eval vm_compute in ("<<<M3180>>>" ++ check (runes_of_ascii "// c" ++ [65279]%N ++ runes_of_ascii "
+packet A {
+}")).
+Eval vm_compute in ("<<<M3122>>>" ++ check (runes_of_ascii "packet A {
+}// c" ++ [5760]%N)).
+Eval vm_compute in ("<<<M187>>>" ++ check (runes_of_ascii "packet tag { }
 ")).
-Eval vm_compute in ("<<<M1712>>>" ++ check (runes_of_ascii "  ")).
+Eval vm_compute in ("<<<M857>>>" ++ check (runes_of_ascii "options{ } 	 ")).
+Eval vm_compute in ("<<<M2223>>>" ++ check (runes_of_ascii "MetaData _x")).
+Eval vm_compute in ("<<<M4343>>>" ++ check (runes_of_ascii "// a
+// b")).
+Eval vm_compute in ("<<<M2757>>>" ++ check (runes_of_ascii "~4BA-c\")).
+Eval vm_compute in ("<<<M2449>>>" ++ check (runes_of_ascii "chars")).
+Eval vm_compute in ("<<<M3158>>>" ++ check (runes_of_ascii "// c" ++ [11]%N)).
+Eval vm_compute in ("<<<M2868>>>" ++ check ([65533; 65533; 31]%N ++ runes_of_ascii "D")).
+Eval vm_compute in ("<<<M2571>>>" ++ check (runes_of_ascii "a" ++ [8232]%N ++ runes_of_ascii "b")).
+Eval vm_compute in ("<<<M14>>>" ++ check (runes_of_ascii "
+")).
